@@ -1,4 +1,5 @@
 import FimVerif.Model.GraphML
+import FimVerif.Model.Serial
 import FimVerif.Proofs.Lemmas.C01Doc
 import FimVerif.Proofs.Lemmas.C01Iter
 import FimVerif.Proofs.Lemmas.C01Store
@@ -80,7 +81,7 @@ example : ∃ (d : Doc Nat) (G : Graph Nat) (p q : Nat × Attrs), readDoc d = so
     `labels = ":GraphNode:" ++ text` of one of its own data elements under the class key -/
 theorem markNode_labels (ck : Option Nat) (n n' : GNode κ) (h : markNode ck n = .ok n') (hn : n.labels = none) :
     ∃ d ∈ n.data, some d.key = ck ∧ d.val.pyStr ≠ "" ∧
-      n' = { n with labels := some (":GraphNode:" ++ d.val.pyStr) } := by
+      n' = { n with labels := some (Gen.Serial.nodeLabelPrefix ++ d.val.pyStr) } := by
   unfold markNode classText at h
   rw [hn] at h
   cases ck with
@@ -196,42 +197,43 @@ example : ∃ (G : Graph Nat) (d d' : GDoc Nat), KeysNodup G ∧ toGraphML G = .
 
 /-- no attribute is named like a reserved key of the node-link format -/
 def NoReserved (G : Graph κ) : Prop :=
-  (∀ p ∈ G.nodes, "id" ∉ p.2.map (·.1)) ∧
-  (∀ e ∈ G.edges, "source" ∉ e.attrs.map (·.1) ∧ "target" ∉ e.attrs.map (·.1))
+  (∀ p ∈ G.nodes, Gen.Serial.jsonIdKey ∉ p.2.map (·.1)) ∧
+  (∀ e ∈ G.edges, Gen.Serial.jsonSourceKey ∉ e.attrs.map (·.1) ∧ Gen.Serial.jsonTargetKey ∉ e.attrs.map (·.1))
 
 instance (G : Graph κ) : Decidable (NoReserved G) := by unfold NoReserved; exact inferInstance
 
-theorem readJNode_toJSON (n : κ) (a : Attrs) (h : "id" ∉ a.map (·.1)) :
-    readJNode ((attrsObj a).set "id" (.k n)) = .ok (n, a) := by
+theorem readJNode_toJSON (n : κ) (a : Attrs) (h : Gen.Serial.jsonIdKey ∉ a.map (·.1)) :
+    readJNode ((attrsObj a).set Gen.Serial.jsonIdKey (.k n)) = .ok (n, a) := by
   rw [JObj.set_not_mem _ _ _ (by rw [attrsObj_keys]; exact h)]
-  have hk : objKey (attrsObj a ++ [("id", JV.k n)]) "id" = .ok n := by
+  have hk : objKey (attrsObj a ++ [(Gen.Serial.jsonIdKey, JV.k n)]) Gen.Serial.jsonIdKey = .ok n := by
     unfold objKey
-    rw [lookup_attrsObj_append "id" _ a h]
+    rw [lookup_attrsObj_append Gen.Serial.jsonIdKey _ a h]
     simp [List.lookup]
-  have ha : objAttrs (attrsObj a ++ [("id", JV.k n)]) ["id"] = .ok a := by
+  have ha : objAttrs (attrsObj a ++ [(Gen.Serial.jsonIdKey, JV.k n)]) [Gen.Serial.jsonIdKey] = .ok a := by
     unfold objAttrs
-    rw [List.filter_append, filter_attrsObj ["id"] a (by simpa using h)]
+    rw [List.filter_append, filter_attrsObj [Gen.Serial.jsonIdKey] a (by simpa using h)]
     simp
     exact mapE_attrsObj a
   simp [readJNode, hk, ha]
 
-theorem readJEdge_toJSON (e : Edge κ) (hs : "source" ∉ e.attrs.map (·.1)) (ht : "target" ∉ e.attrs.map (·.1)) :
-    readJEdge (((attrsObj e.attrs).set "source" (.k e.a)).set "target" (.k e.b)) = .ok e := by
-  rw [JObj.set_not_mem _ "source" _ (by rw [attrsObj_keys]; exact hs)]
-  rw [JObj.set_not_mem _ "target" _ (by
+theorem readJEdge_toJSON (e : Edge κ) (hs : Gen.Serial.jsonSourceKey ∉ e.attrs.map (·.1)) (ht : Gen.Serial.jsonTargetKey ∉ e.attrs.map (·.1)) :
+    readJEdge (((attrsObj e.attrs).set Gen.Serial.jsonSourceKey (.k e.a)).set Gen.Serial.jsonTargetKey (.k e.b)) = .ok e := by
+  rw [JObj.set_not_mem _ Gen.Serial.jsonSourceKey _ (by rw [attrsObj_keys]; exact hs)]
+  rw [JObj.set_not_mem _ Gen.Serial.jsonTargetKey _ (by
     simp only [List.map_append, attrsObj_keys, List.map_cons, List.map_nil, List.mem_append, List.mem_singleton, not_or]
     exact ⟨ht, by decide⟩)]
-  have h1 : objKey (attrsObj e.attrs ++ [("source", JV.k e.a)] ++ [("target", JV.k e.b)]) "source" = .ok e.a := by
+  have h1 : objKey (attrsObj e.attrs ++ [(Gen.Serial.jsonSourceKey, JV.k e.a)] ++ [(Gen.Serial.jsonTargetKey, JV.k e.b)]) Gen.Serial.jsonSourceKey = .ok e.a := by
     unfold objKey
-    rw [List.append_assoc, lookup_attrsObj_append "source" _ e.attrs hs]
+    rw [List.append_assoc, lookup_attrsObj_append Gen.Serial.jsonSourceKey _ e.attrs hs]
     simp [List.lookup]
-  have h2 : objKey (attrsObj e.attrs ++ [("source", JV.k e.a)] ++ [("target", JV.k e.b)]) "target" = .ok e.b := by
+  have h2 : objKey (attrsObj e.attrs ++ [(Gen.Serial.jsonSourceKey, JV.k e.a)] ++ [(Gen.Serial.jsonTargetKey, JV.k e.b)]) Gen.Serial.jsonTargetKey = .ok e.b := by
     unfold objKey
-    rw [List.append_assoc, lookup_attrsObj_append "target" _ e.attrs ht]
-    simp [List.lookup]
-  have h3 : objAttrs (attrsObj e.attrs ++ [("source", JV.k e.a)] ++ [("target", JV.k e.b)]) ["source", "target"] = .ok e.attrs := by
+    rw [List.append_assoc, lookup_attrsObj_append Gen.Serial.jsonTargetKey _ e.attrs ht]
+    have hne : (Gen.Serial.jsonTargetKey == Gen.Serial.jsonSourceKey) = false := by decide
+    simp [List.lookup, hne]
+  have h3 : objAttrs (attrsObj e.attrs ++ [(Gen.Serial.jsonSourceKey, JV.k e.a)] ++ [(Gen.Serial.jsonTargetKey, JV.k e.b)]) [Gen.Serial.jsonSourceKey, Gen.Serial.jsonTargetKey] = .ok e.attrs := by
     unfold objAttrs
-    rw [List.filter_append, List.filter_append, filter_attrsObj ["source", "target"] e.attrs (by
+    rw [List.filter_append, List.filter_append, filter_attrsObj [Gen.Serial.jsonSourceKey, Gen.Serial.jsonTargetKey] e.attrs (by
       intro r hr
       simp at hr
       rcases hr with rfl | rfl
@@ -381,7 +383,7 @@ theorem addGraph_extract [DecidableEq κ] (s : Store) (hs : StoreInv s) (g : Val
     intro p hp
     exact hid p hp
   unfold Store.addGraph
-  simp only [hall, if_true]
+  simp only [sharedFirst_eval, hall, if_true]
   refine ⟨by first | rfl | trivial, ?_⟩
   have := extract_after_merge s hs g G hw hne (fun a => a.set "GraphID" g) (fun p _ => Attrs.get_set p.2 "GraphID" g)
   simp only [Store.relabelFrom, Graph.relabel, stampedCopy, delGraph_nextId, List.map_map, Function.comp_def]
@@ -744,7 +746,7 @@ theorem addGraph_state [DecidableEq κ] (s : Store) (g : Val) (G : Graph κ) (hi
     intro p hp
     exact hid p hp
   unfold Store.addGraph
-  simp only [hall, if_true]
+  simp only [sharedFirst_eval, hall, if_true]
   simp only [Store.relabelFrom, Graph.relabel, delGraph_nextId, List.map_map, Function.comp_def]
   rfl
 
@@ -1040,7 +1042,7 @@ theorem import_frame_direct [DecidableEq κ] (s : Store) (hs : StoreInv s) (d : 
 /-! ### label markup -/
 
 theorem labels_markup_node (ck : Option Nat) (n n' : GNode κ) (h : markNode ck n = .ok n') (hn : n.labels = none) :
-    ∃ d ∈ n.data, some d.key = ck ∧ n'.labels = some (":GraphNode:" ++ d.val.pyStr) := by
+    ∃ d ∈ n.data, some d.key = ck ∧ n'.labels = some (Gen.Serial.nodeLabelPrefix ++ d.val.pyStr) := by
   obtain ⟨d, hd, hk, _, rfl⟩ := markNode_labels ck n n' h hn
   exact ⟨d, hd, hk, rfl⟩
 
@@ -1085,7 +1087,7 @@ theorem classKey_spec (keys : List GKey) (sc : Scope) (i : Nat) (h : classKey ke
 theorem labels_markup (d d' : GDoc κ) (h : toNeo4j d = .ok d')
     (hn : ∀ n ∈ d.nodes, n.labels = none) (he : ∀ e ∈ d.edges, e.label = none) :
     (∀ n' ∈ d'.nodes, ∃ i x, classKey d.keys .node = some i ∧ x ∈ n'.data ∧ x.key = i ∧ x.val.pyStr ≠ "" ∧
-        n'.labels = some (":GraphNode:" ++ x.val.pyStr)) ∧
+        n'.labels = some (Gen.Serial.nodeLabelPrefix ++ x.val.pyStr)) ∧
     (∀ e' ∈ d'.edges, ∃ i x, classKey d.keys .edge = some i ∧ x ∈ e'.data ∧ x.key = i ∧ x.val.pyStr ≠ "" ∧
         e'.label = some x.val.pyStr) := by
   unfold toNeo4j at h
@@ -1160,7 +1162,7 @@ theorem dAddGraph_extract [DecidableEq κ] (s : DStore) (g : Val) (G : Graph κ)
                        (((Store.relabelFrom G 1).nodes.map fun p => (p.1, p.2.set "GraphID" g)).map (·.1)) },
                  counters := DStore.put s.counters g (((Store.relabelFrom G 1).nodes.map fun p => (p.1, p.2.set "GraphID" g)).length + 1) }) := by
     unfold DStore.addGraph.go
-    simp only [hall, if_true]
+    simp only [disjointFirst_eval, hall, if_true]
     rfl
   have hag : s.addGraph g G = DStore.addGraph.go s g G := by
     unfold DStore.addGraph
@@ -1181,5 +1183,1518 @@ theorem dAddGraph_extract [DecidableEq κ] (s : DStore) (g : Val) (G : Graph κ)
       (List.map (fun x => 1 + List.idxOf x.fst (List.map (fun x => x.fst) G.nodes)) G.nodes)) []
       (List.map (fun x => 1 + List.idxOf x.fst (List.map (fun x => x.fst) G.nodes)) G.nodes) = _
   rw [hit, hit]
+
+end FimVerif.C01
+
+/-! ## Topology level: `Topology.load`, constructors, clone; the disjoint store's round trip; whole sessions
+
+`load` is interpreted from the plan `gen/serial.py` reads out of `Topology.load` / `AdvertizedTopology.load` on every
+run (`Gen.Serial.topologyLoad`, `advertizedLoad`). The theorems are proved for *every* plan that passes the decidable
+check `SafePlan`; `repo_plans_safe` (by `decide` on the generated values) is where they meet the code. -/
+namespace FimVerif.C01
+open FimVerif.GraphML FimVerif.Serial FimVerif.SerialSpec
+
+
+/-- reading the document `serialize_graph` emits for a graph that is already in iteration order gives the graph back -/
+theorem readDoc_serializeGraph (H : Graph Nat) (hit : H.edgesIter = H.edges)
+    (f : Fmt) (hk : f = .graphml → KeysNodup H) (hr : f = .json → NoReserved H)
+    (doc : Doc Nat) (hser : serializeGraph H f = .ok doc) : readDoc doc = some H := by
+  unfold serializeGraph at hser
+  cases f with
+  | graphml =>
+    simp only at hser
+    cases h1 : toGraphML H with
+    | error e => simp [h1] at hser
+    | ok d =>
+      cases h2 : toNeo4j d with
+      | error e => simp [h1, h2] at hser
+      | ok d' =>
+        simp only [h1, h2, Except.ok.injEq] at hser
+        subst hser
+        have := roundtrip_graphml_doc H (hk rfl) d d' h1 h2
+        have he : iterFrom H.edgesIter [] H.keys = H.edges := by
+          rw [hit]; exact hit
+        simp only [readDoc, this, he]
+        rfl
+  | json =>
+    simp only [Except.ok.injEq] at hser
+    subst hser
+    have := roundtrip_json_doc H (hr rfl)
+    simp only [readDoc, this, hit]
+    rfl
+
+theorem copyGraph_keys (G : Graph Nat) : (DStore.copyGraph G).keys = G.keys := rfl
+
+theorem copyGraph_iter (G : Graph Nat) (hnd : G.keys.Nodup) : (DStore.copyGraph G).edgesIter = (DStore.copyGraph G).edges := by
+  show iterFrom (iterFrom G.edges [] G.keys) [] G.keys = iterFrom G.edges [] G.keys
+  exact iter_idem _ _ hnd
+
+theorem copyGraph_wf (G : Graph Nat) (hw : GraphWF G) : GraphWF (DStore.copyGraph G) :=
+  ⟨hw.1, fun e he => edgesIter_ends G hw e he⟩
+
+/-- `copy()` of a graph that is already in iteration order is the graph itself -/
+theorem copyGraph_id (G : Graph Nat) (hit : G.edgesIter = G.edges) : DStore.copyGraph G = G := by
+  cases G with
+  | mk ns es =>
+    simp only [DStore.copyGraph, Graph.mk.injEq, true_and]
+    exact hit
+
+theorem DStore.lookup_put_ne {β : Type} : ∀ (l : List (Val × β)) (k k' : Val) (v : β), k' ≠ k →
+    (DStore.put l k v).lookup k' = l.lookup k'
+  | [], k, k', v, h => by
+    have hb : (k' == k) = false := by simpa using h
+    simp [DStore.put, List.lookup, hb]
+  | (k0, v0) :: t, k, k', v, h => by
+    by_cases h0 : k0 = k
+    · subst h0
+      have hb : (k' == k0) = false := by simpa using h
+      simp [DStore.put, List.lookup, hb]
+    · simp only [DStore.put, h0, if_false, List.lookup_cons]
+      cases hk : (k' == k0) with
+      | true => rfl
+      | false => exact DStore.lookup_put_ne t k k' v h
+
+instance {κ : Type} [DecidableEq κ] (G : Graph κ) : Decidable (GraphWF G) := by unfold GraphWF Graph.keys; exact inferInstance
+
+/-- the invariant of one stored graph of the disjoint store -/
+def DGraphOk (g : Val) (G : Graph Nat) : Prop :=
+  GraphWF G ∧ ∀ p ∈ G.nodes, p.2.get? "GraphID" = some g
+
+instance (g : Val) (G : Graph Nat) : Decidable (DGraphOk g G) := by unfold DGraphOk; exact inferInstance
+
+/-- **disjoint store: reading a model's own serialization gives the stored graph back** (as `extract_graph`
+    returns it); the store itself is not changed by serializing a graph that is present -/
+theorem dreadDoc_serialize (s : DStore) (g : Val) (G : Graph Nat) (hl : s.graphs.lookup g = some G) (hw : GraphWF G)
+    (f : Fmt) (hk : f = .graphml → KeysNodup (DStore.copyGraph G)) (hr : f = .json → NoReserved (DStore.copyGraph G))
+    (doc : Doc Nat) (hser : (dSerialize s g f).1 = .ok doc) :
+    (dSerialize s g f).2 = s ∧ readDoc doc = some (DStore.copyGraph G) := by
+  have he : s.extract g = (DStore.copyGraph G, s) := by
+    unfold DStore.extract; rw [hl]
+  unfold dSerialize at hser ⊢
+  rw [he] at hser ⊢
+  simp only at hser ⊢
+  exact ⟨trivial, readDoc_serializeGraph (DStore.copyGraph G) (copyGraph_iter G hw.1) f hk hr doc hser⟩
+
+theorem dStore_hne {G : Graph Nat} (hne : G.nodes ≠ []) : (DStore.copyGraph G).nodes ≠ [] := hne
+
+/-- **disjoint store, round trip through the direct entry points** (`import_graph_from_string_direct` /
+    `_file_direct`, what `Topology.load` uses): the id found in the text is `g`, the import succeeds and the graph held
+    under `g` afterwards is the serialized one with node `k` renamed to `1 + position(k)`; attributes (names, values,
+    value types, order) and edges with their attributes unchanged — whether or not `g` was still held (it is replaced) -/
+theorem droundtrip_import_direct (s : DStore) (g : Val) (G : Graph Nat) (hl : s.graphs.lookup g = some G)
+    (hok : DGraphOk g G) (hne : G.nodes ≠ [])
+    (f : Fmt) (hk : f = .graphml → KeysNodup (DStore.copyGraph G)) (hr : f = .json → NoReserved (DStore.copyGraph G))
+    (doc : Doc Nat) (hser : (dSerialize s g f).1 = .ok doc) :
+    (dImportDirect s doc).1 = .ok g ∧ ((dImportDirect s doc).2.extract g).1 = directCopy (DStore.copyGraph G) 1 := by
+  obtain ⟨_, hread⟩ := dreadDoc_serialize s g G hl hok.1 f hk hr doc hser
+  have hgid := getGraphId_of_all doc (DStore.copyGraph G) hread hne g hok.2
+  unfold dImportDirect
+  rw [hgid]
+  simp only [hread]
+  exact ⟨trivial, dAddGraphDirect_extract s g (DStore.copyGraph G) (copyGraph_wf G hok.1)⟩
+
+/-- **disjoint store, round trip through `import_graph_from_string` / `_file`** under an id `g'` that holds no
+    (non-empty) graph: stamped copy numbered from 1 -/
+theorem droundtrip_import_string (s : DStore) (g g' : Val) (G : Graph Nat) (hl : s.graphs.lookup g = some G)
+    (hw : GraphWF G) (hid : HasNodeIds G) (hne : G.nodes ≠ [])
+    (hfree : ∀ old, s.graphs.lookup g' = some old → old.nodes.isEmpty = true)
+    (f : Fmt) (hk : f = .graphml → KeysNodup (DStore.copyGraph G)) (hr : f = .json → NoReserved (DStore.copyGraph G))
+    (doc : Doc Nat) (hser : (dSerialize s g f).1 = .ok doc) :
+    (dImportString s doc g').1 = .ok g' ∧
+    ((dImportString s doc g').2.extract g').1 = stampedCopy (DStore.copyGraph G) 1 g' := by
+  obtain ⟨_, hread⟩ := dreadDoc_serialize s g G hl hw f hk hr doc hser
+  obtain ⟨h1, h2⟩ := dAddGraph_extract s g' (DStore.copyGraph G) (copyGraph_wf G hw) hid hfree
+  unfold dImportString
+  rw [hread]
+  have hemp : (DStore.copyGraph G).nodes.isEmpty = false := by
+    show G.nodes.isEmpty = false
+    cases hn : G.nodes with
+    | nil => exact absurd hn hne
+    | cons a t => rfl
+  simp only [hemp, Bool.false_eq_true, if_false]
+  cases hag : s.addGraph g' (DStore.copyGraph G) with
+  | mk r s' =>
+    rw [hag] at h1 h2
+    simp only at h1 h2
+    subst h1
+    exact ⟨rfl, h2⟩
+
+/-- **the disjoint store skips an import under an id that is still held** (`add_graph`: "Attempting to insert a graph
+    with the same GraphID, skipping"): the call reports success and the store is exactly as before -/
+theorem dimport_string_present {κ : Type} [DecidableEq κ] (s : DStore) (d : Doc κ) (G : Graph κ) (hr : readDoc d = some G)
+    (hne : G.nodes ≠ []) (g' : Val) (old : Graph Nat) (hl : s.graphs.lookup g' = some old) (hold : old.nodes ≠ []) :
+    dImportString s d g' = (.ok g', s) := by
+  unfold dImportString
+  rw [hr]
+  have hemp : G.nodes.isEmpty = false := by
+    cases hn : G.nodes with
+    | nil => exact absurd hn hne
+    | cons a t => rfl
+  have hold' : old.nodes.isEmpty = false := by
+    cases hn : old.nodes with
+    | nil => exact absurd hn hold
+    | cons a t => rfl
+  simp only [hemp, Bool.false_eq_true, if_false, DStore.addGraph, hl, hold', Bool.not_false, if_true]
+
+theorem dAddGraph_frame {κ : Type} [DecidableEq κ] (s : DStore) (g' g'' : Val) (hne : g'' ≠ g') (G : Graph κ) :
+    (s.addGraph g' G).2.graphs.lookup g'' = s.graphs.lookup g'' := by
+  have hgo : (DStore.addGraph.go s g' G).2.graphs.lookup g'' = s.graphs.lookup g'' := by
+    unfold DStore.addGraph.go
+    simp only
+    split
+    · exact DStore.lookup_put_ne _ _ _ _ hne
+    · rfl
+  unfold DStore.addGraph
+  split
+  · split
+    · rfl
+    · exact hgo
+  · exact hgo
+
+/-- **`import_frame`, disjoint store (reassigning entry points)**: whatever text is imported under `g'`, every other
+    entry of the store is the same graph object as before -/
+theorem dimport_frame_string {κ : Type} [DecidableEq κ] (s : DStore) (d : Doc κ) (g' g'' : Val) (hne : g'' ≠ g') :
+    (dImportString s d g').2.graphs.lookup g'' = s.graphs.lookup g'' := by
+  unfold dImportString
+  cases readDoc d with
+  | none => rfl
+  | some G =>
+    simp only
+    split
+    · rfl
+    · have := dAddGraph_frame s g' g'' hne G
+      cases hag : s.addGraph g' G with
+      | mk r s' =>
+        rw [hag] at this
+        cases r <;> exact this
+
+/-- **`import_frame`, disjoint store (direct entry points)** -/
+theorem dimport_frame_direct {κ : Type} [DecidableEq κ] (s : DStore) (d : Doc κ) (g'' : Val)
+    (hne : ∀ g, (dImportDirect s d).1 = .ok g → g'' ≠ g) :
+    (dImportDirect s d).2.graphs.lookup g'' = s.graphs.lookup g'' := by
+  unfold dImportDirect at hne ⊢
+  cases hg : getGraphId d with
+  | error e => rfl
+  | ok g =>
+    obtain ⟨G, hr, _⟩ := getGraphId_ok d g hg
+    simp only [hg, hr] at hne ⊢
+    exact DStore.lookup_put_ne _ _ _ _ (hne g rfl)
+
+/-- the full statement for the reassigning entry points on the disjoint store (no `hfree`) is false for the code as
+    it is: importing a saved text under an id that still holds an (edited) model leaves the edited model in place
+    (known finding `C01:disjoint:add_graph:keeps-edited-model-instead-of-saved-text`, `corpus/C01/save_edit_reload.json`) -/
+theorem droundtrip_import_string_counterexample :
+    ∃ (s : DStore) (g g' : Val) (G : Graph Nat) (doc : Doc Nat), s.graphs.lookup g = some G ∧ GraphWF G ∧ HasNodeIds G ∧
+      (dSerialize s g .json).1 = .ok doc ∧
+      ((dImportString s doc g').2.extract g').1 ≠ stampedCopy (DStore.copyGraph G) 1 g' :=
+  ⟨⟨[(.str "g", ⟨[(1, [("GraphID", .str "g"), ("NodeID", .str "a"), ("Class", .str "NetworkNode")])], []⟩),
+      (.str "h", ⟨[(1, [("GraphID", .str "h"), ("NodeID", .str "edited"), ("Class", .str "NetworkNode")])], []⟩)], []⟩,
+   .str "g", .str "h", _, _, rfl, by decide, by decide, rfl, by decide⟩
+
+/-! ### the shared store's invariant is kept by every import / load / clone / delete -/
+
+
+theorem storeInv_empty : StoreInv Store.empty := by
+  refine ⟨List.nodup_nil, ?_, ?_⟩ <;> intro x hx <;> cases hx
+
+theorem storeInv_delGraph (s : Store) (hs : StoreInv s) (g : Val) : StoreInv (s.delGraph g) := by
+  refine ⟨?_, ?_, ?_⟩
+  · exact (List.Sublist.map _ List.filter_sublist).nodup hs.1
+  · intro n hn
+    exact hs.2.1 n (List.mem_filter.mp hn).1
+  · intro e he
+    have hf := List.mem_filter.mp he
+    obtain ⟨ha, hb⟩ := hs.2.2 e hf.1
+    have hcond := hf.2
+    simp only [Bool.and_eq_true, Bool.not_eq_true', List.contains_eq_mem, decide_eq_false_iff_not] at hcond
+    have key : ∀ x, x ∈ s.nodes.map (·.iid) → x ∉ (s.graphNodes g).map (·.iid) → x ∈ (s.delGraph g).nodes.map (·.iid) := by
+      intro x hx hnd
+      obtain ⟨n, hn, rfl⟩ := List.mem_map.mp hx
+      apply List.mem_map_of_mem
+      simp only [Store.delGraph, List.mem_filter, Bool.not_eq_true']
+      refine ⟨hn, ?_⟩
+      cases hg : Store.inGraph g n with
+      | false => rfl
+      | true =>
+        exfalso
+        apply hnd
+        exact List.mem_map_of_mem (List.mem_filter.mpr ⟨hn, hg⟩)
+    exact ⟨key _ ha hcond.1, key _ hb hcond.2⟩
+
+/-- merging a graph whose node keys are distinct, lie in `[start_id, start_id + n)` and whose edges run between its
+    own nodes keeps the store invariant -/
+theorem storeInv_merge (s1 : Store) (hs : StoreInv s1) (T : Graph Nat) (hnd : T.keys.Nodup)
+    (hrange : ∀ k ∈ T.keys, s1.nextId ≤ k ∧ k < s1.nextId + T.nodes.length)
+    (hends : ∀ e ∈ T.edges, e.a ∈ T.keys ∧ e.b ∈ T.keys) : StoreInv (s1.merge T) := by
+  have hids : (s1.merge T).nodes.map (·.iid) = s1.nodes.map (·.iid) ++ T.keys := by
+    simp [Store.merge, Graph.keys, List.map_map, Function.comp_def]
+  refine ⟨?_, ?_, ?_⟩
+  · rw [hids]
+    refine List.nodup_append.mpr ⟨hs.1, hnd, ?_⟩
+    intro a ha b hb hab
+    obtain ⟨n, hn, rfl⟩ := List.mem_map.mp ha
+    have := hs.2.1 n hn
+    have := (hrange b hb).1
+    omega
+  · intro n hn
+    simp only [Store.merge, List.mem_append, List.mem_map] at hn ⊢
+    rcases hn with h | ⟨p, hp, rfl⟩
+    · have := hs.2.1 n h; omega
+    · have := (hrange p.1 (List.mem_map_of_mem (f := (·.1)) hp)).2
+      exact this
+  · intro e he
+    rw [hids]
+    simp only [Store.merge, List.mem_append] at he
+    rcases he with h | h
+    · obtain ⟨ha, hb⟩ := hs.2.2 e h
+      exact ⟨List.mem_append_left _ ha, List.mem_append_left _ hb⟩
+    · obtain ⟨h1, _, e0, he0, _, hor⟩ := mem_iterFrom T.edges T.keys [] e h
+      refine ⟨List.mem_append_right _ h1, List.mem_append_right _ ?_⟩
+      rcases hor with ⟨_, hb⟩ | ⟨_, hb⟩
+      · exact hb ▸ (hends e0 he0).2
+      · exact hb ▸ (hends e0 he0).1
+
+theorem nodup_map_on {α β : Type} (f : α → β) : ∀ l : List α, l.Nodup → (∀ x ∈ l, ∀ y ∈ l, f x = f y → x = y) → (l.map f).Nodup
+  | [], _, _ => List.nodup_nil
+  | a :: t, hnd, hinj => by
+    have hnd' := List.nodup_cons.mp hnd
+    simp only [List.map_cons, List.nodup_cons]
+    refine ⟨?_, nodup_map_on f t hnd'.2 (fun x hx y hy => hinj x (List.mem_cons_of_mem _ hx) y (List.mem_cons_of_mem _ hy))⟩
+    intro hm
+    obtain ⟨x, hx, hfx⟩ := List.mem_map.mp hm
+    have := hinj x (List.mem_cons_of_mem _ hx) a List.mem_cons_self hfx
+    subst this
+    exact hnd'.1 hx
+
+theorem relabelFrom_ok {κ : Type} [DecidableEq κ] (G : Graph κ) (hw : GraphWF G) (start : Nat) (at' : Attrs → Attrs) :
+    let T : Graph Nat := { Store.relabelFrom G start with nodes := (Store.relabelFrom G start).nodes.map fun p => (p.1, at' p.2) }
+    T.keys.Nodup ∧ (∀ k ∈ T.keys, start ≤ k ∧ k < start + T.nodes.length) ∧ (∀ e ∈ T.edges, e.a ∈ T.keys ∧ e.b ∈ T.keys) := by
+  have hkeys : ({ Store.relabelFrom G start with nodes := (Store.relabelFrom G start).nodes.map fun p => (p.1, at' p.2) } : Graph Nat).keys
+      = G.keys.map fun k => start + G.keys.idxOf k := by
+    simp [Graph.keys, Store.relabelFrom, Graph.relabel, List.map_map, Function.comp_def]
+  refine ⟨?_, ?_, ?_⟩
+  · rw [hkeys]
+    refine nodup_map_on _ _ hw.1 ?_
+    intro x hx y hy h
+    exact idxOf_inj G.keys x hx y hy (by omega)
+  · intro k hk
+    rw [hkeys] at hk
+    obtain ⟨x, hx, rfl⟩ := List.mem_map.mp hk
+    have := List.idxOf_lt_length_of_mem hx
+    simp only [Store.relabelFrom, Graph.relabel, List.length_map, Graph.keys] at this ⊢
+    omega
+  · intro e he
+    rw [hkeys]
+    simp only [Store.relabelFrom, Graph.relabel] at he
+    obtain ⟨e0, he0, rfl⟩ := List.mem_map.mp he
+    obtain ⟨ha, hb⟩ := edgesIter_ends G hw e0 he0
+    exact ⟨List.mem_map_of_mem (f := fun k => start + G.keys.idxOf k) ha,
+           List.mem_map_of_mem (f := fun k => start + G.keys.idxOf k) hb⟩
+
+theorem storeInv_addGraphDirect {κ : Type} [DecidableEq κ] (s : Store) (hs : StoreInv s) (g : Val) (G : Graph κ) (hw : GraphWF G) :
+    StoreInv (s.addGraphDirect g G) := by
+  obtain ⟨h1, h2, h3⟩ := relabelFrom_ok G hw (s.delGraph g).nextId id
+  unfold Store.addGraphDirect
+  apply storeInv_merge _ (storeInv_delGraph s hs g)
+  · simpa using h1
+  · simpa using h2
+  · simpa using h3
+
+theorem storeInv_addGraph {κ : Type} [DecidableEq κ] (s : Store) (hs : StoreInv s) (g : Val) (G : Graph κ) (hw : GraphWF G) :
+    StoreInv (s.addGraph g G).2 := by
+  obtain ⟨h1, h2, h3⟩ := relabelFrom_ok G hw (s.delGraph g).nextId (fun a => a.set "GraphID" g)
+  unfold Store.addGraph
+  simp only
+  split
+  · exact storeInv_merge _ (storeInv_delGraph s hs g) _ h1 h2 h3
+  · exact storeInv_delGraph s hs g
+
+/-! ### the store invariant over whole sessions -/
+
+/-- a text is *simple* when the graph the readers make of it has distinct node keys and edges between declared nodes
+    (the domain on which the reader models are exact; every text the library serializes is simple: `serialize_docWF`) -/
+def DocWF {κ : Type} [DecidableEq κ] (d : Doc κ) : Prop := ∀ G, readDoc d = some G → GraphWF G
+
+theorem storeInv_importString {κ : Type} [DecidableEq κ] (s : Store) (hs : StoreInv s) (d : Doc κ) (hd : DocWF d) (g : Val) :
+    StoreInv (importString s d g).2 := by
+  unfold importString
+  cases hr : readDoc d with
+  | none => exact hs
+  | some G =>
+    simp only
+    split
+    · exact hs
+    · have := storeInv_addGraph s hs g G (hd G hr)
+      cases hag : s.addGraph g G with
+      | mk r s' =>
+        rw [hag] at this
+        cases r <;> exact this
+
+theorem storeInv_importDirect {κ : Type} [DecidableEq κ] (s : Store) (hs : StoreInv s) (d : Doc κ) (hd : DocWF d) :
+    StoreInv (importDirect s d).2 := by
+  unfold importDirect
+  cases getGraphId d with
+  | error e => exact hs
+  | ok g =>
+    simp only
+    cases hr : readDoc d with
+    | none => exact hs
+    | some G => exact storeInv_addGraphDirect s hs g G (hd G hr)
+
+theorem storeInv_clone (s : Store) (hs : StoreInv s) (g g' : Val) : StoreInv (cloneGraph s g g').2 := by
+  unfold cloneGraph
+  cases hG : s.extract g with
+  | none => exact hs
+  | some G =>
+    obtain ⟨_, hw, _, _, _⟩ := extract_spec s hs g G hG
+    exact storeInv_addGraph s hs g' _ ⟨hw.1, fun e he => edgesIter_ends G hw e he⟩
+
+/-- every text the library serializes from a store satisfying the invariant is simple -/
+theorem serialize_docWF (s : Store) (hs : StoreInv s) (g : Val) (G0 : Graph Nat) (hG : s.extract g = some G0)
+    (f : Fmt) (hk : f = .graphml → KeysNodup G0) (hr : f = .json → NoReserved G0)
+    (doc : Doc Nat) (hser : serialize s g f = .ok (some doc)) : DocWF doc := by
+  intro G hread
+  rw [readDoc_serialize s hs g G0 hG f hk hr doc hser] at hread
+  obtain ⟨_, hw, _, _, _⟩ := extract_spec s hs g G0 hG
+  exact (Option.some.inj hread) ▸ hw
+
+
+/-! ### plans that are safe, and what `load` does under any safe plan -/
+
+def isRemember : LoadStep → Bool
+  | .remember => true
+  | _ => false
+
+def isRebind : LoadStep → Bool
+  | .rebind => true
+  | _ => false
+
+/-- a statement allowed after the import: rebinding, remembering, and `delete_graph()` of the held / remembered
+    model *under the `ids differ` guard* (`bound`: a model was remembered before the import) -/
+def postOk (bound : Bool) : LoadStep → Bool
+  | .rebind => true
+  | .remember => true
+  | .delete .held true => true
+  | .delete .remembered true => bound
+  | _ => false
+
+/-- split at the import -/
+def splitPlan : List LoadStep → Option (List LoadStep × List LoadStep)
+  | [] => none
+  | .importDoc :: post => some ([], post)
+  | s :: rest => (splitPlan rest).map fun p => (s :: p.1, p.2)
+
+/-- **the decidable safety check of a load plan**: nothing but remembering the held model before the single import; after
+    it the topology is rebound to the imported graph, and a model is deleted only under the guard that its id differs
+    from the imported one; file / string keep the graph id, a new id goes through `import_graph_from_string` -/
+def SafePlan (sp : LoadSpec) : Bool :=
+  (match splitPlan sp.steps with
+   | none => false
+   | some (pre, post) => pre.all isRemember && post.all (postOk !pre.isEmpty) && post.any isRebind) &&
+  sp.onFile == some .fileDirect && sp.onString == some .stringDirect &&
+  (sp.onStringNewId == none || sp.onStringNewId == some .string)
+
+/-- both plans read from the repo pass the check -/
+theorem repo_plans_safe : SafePlan FimVerif.Gen.Serial.topologyLoad = true ∧ SafePlan FimVerif.Gen.Serial.advertizedLoad = true := by
+  decide
+
+theorem splitPlan_spec : ∀ (steps pre post : List LoadStep), splitPlan steps = some (pre, post) → steps = pre ++ .importDoc :: post
+  | [], _, _, h => by simp [splitPlan] at h
+  | s :: rest, pre, post, h => by
+    cases s with
+    | importDoc =>
+      simp only [splitPlan, Option.some.injEq, Prod.mk.injEq] at h
+      obtain ⟨rfl, rfl⟩ := h
+      rfl
+    | rebind =>
+      simp only [splitPlan, Option.map_eq_some_iff] at h
+      obtain ⟨⟨p1, p2⟩, hp, he⟩ := h
+      simp only [Prod.mk.injEq] at he
+      obtain ⟨rfl, rfl⟩ := he
+      rw [splitPlan_spec rest p1 p2 hp]; rfl
+    | remember =>
+      simp only [splitPlan, Option.map_eq_some_iff] at h
+      obtain ⟨⟨p1, p2⟩, hp, he⟩ := h
+      simp only [Prod.mk.injEq] at he
+      obtain ⟨rfl, rfl⟩ := he
+      rw [splitPlan_spec rest p1 p2 hp]; rfl
+    | delete w b =>
+      simp only [splitPlan, Option.map_eq_some_iff] at h
+      obtain ⟨⟨p1, p2⟩, hp, he⟩ := h
+      simp only [Prod.mk.injEq] at he
+      obtain ⟨rfl, rfl⟩ := he
+      rw [splitPlan_spec rest p1 p2 hp]; rfl
+
+section
+variable {σ κ : Type}
+
+/-- the statements before the import only remember the held model -/
+theorem runSteps_pre (ops : StoreOps σ κ) (entry : Entry) (doc : Doc κ) (newId : Val) (s : σ) (held : Val) :
+    ∀ (pre rest : List LoadStep) (r : Option Val), pre.all isRemember = true →
+      runSteps ops entry doc newId (pre ++ rest) ⟨s, held, r, none⟩ =
+        runSteps ops entry doc newId rest ⟨s, held, if pre.isEmpty then r else some held, none⟩
+  | [], rest, r, _ => rfl
+  | st :: pre, rest, r, h => by
+    simp only [List.all_cons, Bool.and_eq_true] at h
+    cases st with
+    | remember =>
+      simp only [List.cons_append, runSteps, stepLoad]
+      rw [runSteps_pre ops entry doc newId s held pre rest (some held) h.2]
+      cases pre <;> rfl
+    | importDoc => simp [isRemember] at h
+    | rebind => simp [isRemember] at h
+    | delete w b => simp [isRemember] at h
+
+/-- what holds between the import and the end of `load` -/
+structure PostInv (P : σ → Prop) (g held0 : Val) (bound : Bool) (st : LState σ) : Prop where
+  imp : st.imported = some g
+  held : st.held = g ∨ st.held = held0
+  rem : ∀ r, st.remembered = some r → r = g ∨ r = held0
+  bnd : bound = true → st.remembered.isSome = true
+  store : P st.store
+
+theorem runSteps_post (ops : StoreOps σ κ) (entry : Entry) (doc : Doc κ) (newId : Val) (P : σ → Prop) (g held0 : Val) (bound : Bool)
+    (hdel : ∀ s, P s → held0 ≠ g → P (ops.delGraph s held0)) :
+    ∀ (post : List LoadStep) (st : LState σ), post.all (postOk bound) = true → PostInv P g held0 bound st →
+      ∃ st', runSteps ops entry doc newId post st = (.ok (), st') ∧ PostInv P g held0 bound st' ∧
+        ((post.any isRebind = true ∨ st.held = g) → st'.held = g)
+  | [], st, _, hinv => ⟨st, rfl, hinv, fun h => h.elim (fun h => by simp at h) (fun h => h)⟩
+  | step :: post, st, hok, hinv => by
+    simp only [List.all_cons, Bool.and_eq_true] at hok
+    obtain ⟨hstep, hrest⟩ := hok
+    -- one step keeps the invariant
+    have key : ∃ st1, stepLoad ops entry doc newId st step = (.ok (), st1) ∧ PostInv P g held0 bound st1 ∧
+        ((isRebind step = true ∨ st.held = g) → st1.held = g) := by
+      cases step with
+      | importDoc => simp [postOk] at hstep
+      | rebind =>
+        refine ⟨{ st with held := g }, ?_, ⟨hinv.imp, Or.inl rfl, hinv.rem, hinv.bnd, hinv.store⟩, fun _ => rfl⟩
+        simp only [stepLoad, hinv.imp]
+      | remember =>
+        refine ⟨{ st with remembered := some st.held }, rfl, ⟨hinv.imp, hinv.held, ?_, fun _ => rfl, hinv.store⟩, ?_⟩
+        · intro r hr
+          simp only [Option.some.injEq] at hr
+          exact hr ▸ hinv.held
+        · intro h
+          rcases h with h | h
+          · simp [isRebind] at h
+          · exact h
+      | delete w b =>
+        have hb : b = true := by
+          cases w <;> cases b <;> simp_all [postOk]
+        subst hb
+        -- the target is the held or the remembered model: its id is g or held0
+        have htarget : ∃ id, st.pick w = some id ∧ (id = g ∨ id = held0) := by
+          cases w with
+          | held => exact ⟨st.held, rfl, hinv.held⟩
+          | remembered =>
+            have hbound : bound = true := by simpa [postOk] using hstep
+            have := hinv.bnd hbound
+            cases hr : st.remembered with
+            | none => simp [hr] at this
+            | some r => exact ⟨r, by simp [LState.pick, hr], hinv.rem r hr⟩
+          | imported => simp [postOk] at hstep
+        obtain ⟨id, hpick, hid⟩ := htarget
+        by_cases hg : id = g
+        · refine ⟨st, ?_, hinv, fun h => h.elim (fun h => by simp [isRebind] at h) (fun h => h)⟩
+          simp only [stepLoad, hpick, hinv.imp, if_true, hg]
+        · have hid0 : id = held0 := hid.elim (fun h => absurd h hg) (fun h => h)
+          refine ⟨{ st with store := ops.delGraph st.store id }, ?_, ⟨hinv.imp, hinv.held, hinv.rem, hinv.bnd, ?_⟩,
+            fun h => h.elim (fun h => by simp [isRebind] at h) (fun h => h)⟩
+          · simp only [stepLoad, hpick, hinv.imp, if_true, hg, if_false]
+          · show P (ops.delGraph st.store id)
+            rw [hid0]
+            exact hdel st.store hinv.store (fun h => hg (hid0.trans h))
+    obtain ⟨st1, hs1, hinv1, hheld1⟩ := key
+    obtain ⟨st', hs', hinv', hheld'⟩ := runSteps_post ops entry doc newId P g held0 bound hdel post st1 hrest hinv1
+    refine ⟨st', ?_, hinv', ?_⟩
+    · simp only [runSteps, hs1]
+      exact hs'
+    · intro h
+      apply hheld'
+      simp only [List.any_cons, Bool.or_eq_true] at h
+      rcases h with (h | h) | h
+      · exact Or.inr (hheld1 (Or.inl h))
+      · exact Or.inl h
+      · exact Or.inr (hheld1 (Or.inr h))
+
+/-- **`load` under any safe plan**: when the importer call succeeds with id `g` and leaves a store satisfying `P` (any
+    property of the store that deleting the previously held graph — of another id — preserves), `load` succeeds, the
+    topology holds `g`, and `P` still holds -/
+theorem load_safe (ops : StoreOps σ κ) (sp : LoadSpec) (hsafe : SafePlan sp = true) (shape : Shape)
+    (s : σ) (held newId : Val) (doc : Doc κ) (g : Val) (s1 : σ) (P : σ → Prop)
+    (himp : (match shape with
+      | .stringNewId => sp.onStringNewId = some .string ∧ ops.importString s doc newId = (.ok g, s1)
+      | _ => ops.importDirect s doc = (.ok g, s1)))
+    (hP : P s1) (hdel : ∀ s, P s → held ≠ g → P (ops.delGraph s held)) :
+    ∃ s', load ops sp s held shape doc newId = (.ok g, s', g) ∧ P s' := by
+  unfold SafePlan at hsafe
+  simp only [Bool.and_eq_true, beq_iff_eq, Bool.or_eq_true] at hsafe
+  obtain ⟨⟨⟨hsteps, hfile⟩, hstring⟩, hnew⟩ := hsafe
+  cases hsplit : splitPlan sp.steps with
+  | none => simp [hsplit] at hsteps
+  | some pp =>
+    obtain ⟨pre, post⟩ := pp
+    simp only [hsplit, Bool.and_eq_true] at hsteps
+    obtain ⟨⟨hpre, hpost⟩, hreb⟩ := hsteps
+    have hst := splitPlan_spec sp.steps pre post hsplit
+    -- the entry reached and what its call returns
+    have hentry : ∃ entry, sp.entry shape = some entry ∧
+        (if entry.direct then ops.importDirect s doc else ops.importString s doc newId) = (.ok g, s1) := by
+      cases shape with
+      | file => exact ⟨.fileDirect, hfile, himp⟩
+      | string => exact ⟨.stringDirect, hstring, himp⟩
+      | stringNewId => exact ⟨.string, himp.1, himp.2⟩
+    obtain ⟨entry, he, hcall⟩ := hentry
+    unfold load
+    rw [he, hst]
+    simp only
+    rw [runSteps_pre ops entry doc newId s held pre _ none hpre]
+    simp only [runSteps, stepLoad, hcall]
+    have hinv : PostInv P g held (!pre.isEmpty)
+        ⟨s1, held, if pre.isEmpty then none else some held, some g⟩ := by
+      refine ⟨rfl, Or.inr rfl, ?_, ?_, hP⟩
+      · intro r hr
+        cases hpe : pre.isEmpty <;> simp [hpe] at hr
+        exact Or.inr hr.symm
+      · intro hb
+        cases hpe : pre.isEmpty <;> simp [hpe] at hb ⊢
+    obtain ⟨st', hrun, hinv', hheld⟩ := runSteps_post ops entry doc newId P g held (!pre.isEmpty) hdel post _ hpost hinv
+    rw [hrun]
+    have hh : st'.held = g := hheld (Or.inl hreb)
+    exact ⟨st'.store, by simp only [hh], hinv'.store⟩
+
+/-- under any safe plan a failing importer call makes `load` fail with the store the call left and the topology
+    still holding what it held -/
+theorem load_safe_error (ops : StoreOps σ κ) (sp : LoadSpec) (hsafe : SafePlan sp = true) (shape : Shape)
+    (s : σ) (held newId : Val) (doc : Doc κ) (e : String) (s1 : σ)
+    (himp : (match shape with
+      | .stringNewId => sp.onStringNewId = some .string ∧ ops.importString s doc newId = (.error e, s1)
+      | _ => ops.importDirect s doc = (.error e, s1))) :
+    load ops sp s held shape doc newId = (.error e, s1, held) := by
+  unfold SafePlan at hsafe
+  simp only [Bool.and_eq_true, beq_iff_eq, Bool.or_eq_true] at hsafe
+  obtain ⟨⟨⟨hsteps, hfile⟩, hstring⟩, hnew⟩ := hsafe
+  cases hsplit : splitPlan sp.steps with
+  | none => simp [hsplit] at hsteps
+  | some pp =>
+    obtain ⟨pre, post⟩ := pp
+    simp only [hsplit, Bool.and_eq_true] at hsteps
+    obtain ⟨⟨hpre, _⟩, _⟩ := hsteps
+    have hst := splitPlan_spec sp.steps pre post hsplit
+    have hentry : ∃ entry, sp.entry shape = some entry ∧
+        (if entry.direct then ops.importDirect s doc else ops.importString s doc newId) = (.error e, s1) := by
+      cases shape with
+      | file => exact ⟨.fileDirect, hfile, himp⟩
+      | string => exact ⟨.stringDirect, hstring, himp⟩
+      | stringNewId => exact ⟨.string, himp.1, himp.2⟩
+    obtain ⟨entry, he, hcall⟩ := hentry
+    unfold load
+    rw [he, hst]
+    simp only
+    rw [runSteps_pre ops entry doc newId s held pre _ none hpre]
+    simp only [runSteps, stepLoad, hcall]
+
+end
+
+theorem safe_entries (sp : LoadSpec) (h : SafePlan sp = true) :
+    sp.onFile = some .fileDirect ∧ sp.onString = some .stringDirect ∧
+    (sp.onStringNewId = none ∨ sp.onStringNewId = some .string) := by
+  unfold SafePlan at h
+  simp only [Bool.and_eq_true, beq_iff_eq, Bool.or_eq_true] at h
+  exact ⟨h.1.1.2, h.1.2, h.2⟩
+
+theorem load_no_entry {σ κ : Type} (ops : StoreOps σ κ) (sp : LoadSpec) (s : σ) (held newId : Val) (shape : Shape) (d : Doc κ)
+    (h : sp.entry shape = none) : load ops sp s held shape d newId = (.error "type", s, held) := by
+  unfold load; rw [h]
+
+/-- what the importer call of a `load` does to the store -/
+def importOf {σ κ : Type} (ops : StoreOps σ κ) (shape : Shape) (s : σ) (doc : Doc κ) (newId : Val) : Except String Val × σ :=
+  match shape with
+  | .stringNewId => ops.importString s doc newId
+  | _ => ops.importDirect s doc
+
+/-- `load` under a safe plan, by cases: the method does not take the argument (store untouched), the importer call
+    fails (its store, topology unchanged), or it succeeds with `g` and every store property `P` that survives deleting
+    the previously held graph (when that has another id) carries over -/
+theorem load_cases {σ κ : Type} (ops : StoreOps σ κ) (sp : LoadSpec) (hsafe : SafePlan sp = true) (shape : Shape)
+    (s : σ) (held newId : Val) (doc : Doc κ) :
+    load ops sp s held shape doc newId = (.error "type", s, held) ∨
+    (∃ e, (importOf ops shape s doc newId).1 = .error e ∧
+      load ops sp s held shape doc newId = (.error e, (importOf ops shape s doc newId).2, held)) ∨
+    (∃ g, (importOf ops shape s doc newId).1 = .ok g ∧
+      ∀ P : σ → Prop, P (importOf ops shape s doc newId).2 → (∀ s', P s' → held ≠ g → P (ops.delGraph s' held)) →
+        ∃ s', load ops sp s held shape doc newId = (.ok g, s', g) ∧ P s') := by
+  obtain ⟨_, _, hnew⟩ := safe_entries sp hsafe
+  by_cases hno : shape = .stringNewId ∧ sp.onStringNewId = none
+  · left
+    exact load_no_entry ops sp s held newId shape doc (by rw [hno.1]; exact hno.2)
+  · right
+    have hnewOk : shape = .stringNewId → sp.onStringNewId = some .string := by
+      intro h
+      rcases hnew with h' | h'
+      · exact absurd ⟨h, h'⟩ hno
+      · exact h'
+    rcases hi : importOf ops shape s doc newId with ⟨r, s1⟩
+    cases r with
+    | error e =>
+      left
+      refine ⟨e, rfl, ?_⟩
+      exact load_safe_error ops sp hsafe shape s held newId doc e s1
+        (by cases shape <;> first | exact hi | exact ⟨hnewOk rfl, hi⟩)
+    | ok g =>
+      right
+      refine ⟨g, rfl, fun P hP hdel => ?_⟩
+      exact load_safe ops sp hsafe shape s held newId doc g s1 P
+        (by cases shape <;> first | exact hi | exact ⟨hnewOk rfl, hi⟩) hP hdel
+
+/-! ### where the theorems meet the other generated tables (`Generated/Serial.lean`) -/
+
+theorem graphId_not_json_property : "GraphID" ∉ FimVerif.Gen.Serial.jsonPropertyNames := by decide
+
+/-- **`validates_after_import` for the JSON property names the repo declares** (`JSON_PROPERTY_NAMES`, regenerated on
+    every run; the driver validates with the same list) -/
+theorem validates_after_import_repo (jsonOk : String → Bool)
+    (s : Store) (hs : StoreInv s) (g g' : Val) (G0 : Graph Nat)
+    (hG : s.extract g = some G0) (hid : HasNodeIds G0)
+    (f : Fmt) (hk : f = .graphml → KeysNodup G0) (hr : f = .json → NoReserved G0)
+    (doc : Doc Nat) (hser : serialize s g f = .ok (some doc))
+    (hv : validate FimVerif.Gen.Serial.jsonPropertyNames jsonOk s g = .ok ()) :
+    validate FimVerif.Gen.Serial.jsonPropertyNames jsonOk (importString s doc g').2 g' = .ok () :=
+  validates_after_import _ jsonOk graphId_not_json_property s hs g g' G0 hG hid f hk hr doc hser hv
+
+/-- the guard of the JSON theorems, spelled with the reserved keys observed on the code -/
+theorem noReserved_iff (G : Graph κ) :
+    NoReserved G ↔ (∀ p ∈ G.nodes, ∀ r ∈ FimVerif.Gen.Serial.jsonNodeReserved, r ∉ p.2.map (·.1)) ∧
+      (∀ e ∈ G.edges, ∀ r ∈ FimVerif.Gen.Serial.jsonEdgeReserved, r ∉ e.attrs.map (·.1)) := by
+  have hn : FimVerif.Gen.Serial.jsonNodeReserved = [FimVerif.Gen.Serial.jsonIdKey] := by decide
+  have he : FimVerif.Gen.Serial.jsonEdgeReserved = [FimVerif.Gen.Serial.jsonSourceKey, FimVerif.Gen.Serial.jsonTargetKey] := by decide
+  rw [hn, he]
+  simp [NoReserved]
+
+/-- the parts of the model that still spell a name of the code literally: the identity property names, the markup
+    attribute names, no prefix on the edge label, JSON sniffed before GraphML -/
+theorem serial_names_tie :
+    FimVerif.Gen.Serial.graphId = "GraphID" ∧ FimVerif.Gen.Serial.nodeId = "NodeID" ∧ FimVerif.Gen.Serial.propClass = "Class" ∧
+    FimVerif.Gen.Serial.nodeLabelAttr = "labels" ∧ FimVerif.Gen.Serial.edgeLabelAttr = "label" ∧
+    FimVerif.Gen.Serial.edgeLabelPrefix = "" ∧ FimVerif.Gen.Serial.readFormatsJsonFirst = true := by decide
+
+/-! ### validation after the direct entry points and after `load` -/
+
+theorem validate_after_copy (names : List String) (jsonOk : String → Bool) (hnames : "GraphID" ∉ names)
+    (s : Store) (hs : StoreInv s) (g g' : Val) (G0 : Graph Nat) (hG : s.extract g = some G0)
+    (stamp : Attrs → Attrs) (hP1 : ∀ (a : Attrs) (k : String), k ≠ "GraphID" → (stamp a).get? k = a.get? k)
+    (hP2 : ∀ p ∈ G0.nodes, (stamp p.2).get? "GraphID" = some g')
+    (hv : validate names jsonOk s g = .ok ()) :
+    validate names jsonOk ((s.delGraph g').merge
+      { nodes := G0.nodes.map fun p => (s.nextId + G0.keys.idxOf p.1, stamp p.2),
+        edges := G0.edgesIter.map (ren fun k => s.nextId + G0.keys.idxOf k) }) g' = .ok () := by
+  -- what validation of the original tells us
+  unfold validate at hv
+  split at hv
+  · cases hv
+  · rename_i hne0
+    cases hfor : forE (checkNode names jsonOk s g) (s.graphNodes g) with
+    | error e => simp [hfor] at hv
+    | ok u =>
+      simp only [hfor] at hv
+      split at hv
+      · rename_i hcls
+        simp only [Bool.and_eq_true, List.all_eq_true] at hcls
+        obtain ⟨hcn, hce⟩ := hcls
+        have hchk := (forE_ok_iff _ _).mp (by cases u; exact hfor)
+        -- the state after the import
+        obtain ⟨hne, hw, hit, hgid, hmem⟩ := extract_spec s hs g G0 hG
+        have hnodes := extract_nodes s g G0 hG
+        -- name the pieces
+        let fn : Nat → Nat := fun k => s.nextId + G0.keys.idxOf k
+        let cp : SNode → SNode := fun n => ⟨fn n.iid, stamp n.attrs⟩
+        have hcopies : ((G0.nodes.map fun p => (fn p.1, stamp p.2)).map fun p => (⟨p.1, p.2⟩ : SNode))
+            = (s.graphNodes g).map cp := by
+          rw [hnodes]; simp [List.map_map, Function.comp_def, cp]
+        have hgn : Store.graphNodes ((s.delGraph g').merge
+              { nodes := G0.nodes.map fun p => (fn p.1, stamp p.2),
+                edges := G0.edgesIter.map (ren fn) }) g' = (s.graphNodes g).map cp := by
+          show List.filter (Store.inGraph g') ((s.delGraph g').nodes ++
+              (G0.nodes.map fun p => (fn p.1, stamp p.2)).map fun p => (⟨p.1, p.2⟩ : SNode)) = _
+          have h1 : (s.delGraph g').nodes.filter (Store.inGraph g') = [] := delGraph_graphNodes s g'
+          rw [List.filter_append, h1, List.nil_append, hcopies, List.filter_eq_self]
+          intro n hn
+          obtain ⟨m, hmg, rfl⟩ := List.mem_map.mp hn
+          have hm' : (m.iid, m.attrs) ∈ G0.nodes := by rw [hnodes]; exact List.mem_map_of_mem (f := fun n : SNode => (n.iid, n.attrs)) hmg
+          simp [Store.inGraph, cp, hP2 _ hm']
+        unfold validate
+        rw [hgn]
+        have hne' : ((s.graphNodes g).map cp).isEmpty = false := by
+          cases hx : s.graphNodes g with
+          | nil => simp [hx] at hne0
+          | cons a t => rfl
+        simp only [hne', Bool.false_eq_true, if_false]
+        -- every copied node passes the JSON check
+        have hfor' : forE (checkNode names jsonOk ((s.delGraph g').merge
+              { nodes := G0.nodes.map fun p => (fn p.1, stamp p.2),
+                edges := G0.edgesIter.map (ren fn) }) g') ((s.graphNodes g).map cp) = .ok () := by
+          rw [forE_ok_iff]
+          intro n' hn'
+          obtain ⟨n, hn, rfl⟩ := List.mem_map.mp hn'
+          have hc := hchk n hn
+          unfold checkNode at hc ⊢
+          cases hnid : n.attrs.get? "NodeID" with
+          | none => simp [hnid] at hc
+          | some nid =>
+            simp only [hnid] at hc
+            have hnid' : (cp n).attrs.get? "NodeID" = some nid := by
+              simp only [cp]; rw [hP1 _ _ (by decide)]; exact hnid
+            simp only [hnid']
+            cases hfn : findNode s g nid with
+            | error e => simp [hfn] at hc
+            | ok m =>
+              simp only [hfn] at hc
+              have hfil : (s.graphNodes g).filter (fun n => n.attrs.get? "NodeID" == some nid) = [m] := by
+                unfold findNode at hfn
+                split at hfn
+                · cases hfn
+                · rename_i x hx; simp only [Except.ok.injEq] at hfn; rw [hx, hfn]
+                · cases hfn
+              have hfn' : findNode ((s.delGraph g').merge
+                  { nodes := G0.nodes.map fun p => (fn p.1, stamp p.2),
+                    edges := G0.edgesIter.map (ren fn) }) g' nid = .ok (cp m) := by
+                unfold findNode
+                rw [hgn, List.filter_map]
+                have : ((fun n : SNode => n.attrs.get? "NodeID" == some nid) ∘ cp)
+                    = fun n : SNode => n.attrs.get? "NodeID" == some nid := by
+                  funext x
+                  simp only [Function.comp_apply, cp]
+                  rw [hP1 _ _ (by decide)]
+                rw [this, hfil]
+                rfl
+              simp only [hfn']
+              have hcl : ((cp m).attrs.get? "Class") = m.attrs.get? "Class" := by
+                simp only [cp]; exact hP1 _ _ (by decide)
+              rw [hcl]
+              split at hc
+              · cases hc
+              · rename_i hcl0
+                simp only [hcl0, Bool.false_eq_true, if_false]
+                rw [forE_ok_iff] at hc ⊢
+                intro name hname
+                have : name ≠ "GraphID" := fun e => hnames (e ▸ hname)
+                simp only [cp]
+                have hcj : checkJsonProp jsonOk (stamp m.attrs) name = checkJsonProp jsonOk m.attrs name := by
+                  unfold checkJsonProp; rw [hP1 _ _ this]
+                rw [hcj]
+                exact hc name hname
+        rw [hfor']
+        -- every node and edge of the new store has a Class
+        have hallc : (((s.delGraph g').merge
+              { nodes := G0.nodes.map fun p => (fn p.1, stamp p.2),
+                edges := G0.edgesIter.map (ren fn) }).nodes.all (fun n => hasClass n.attrs) &&
+            ((s.delGraph g').merge
+              { nodes := G0.nodes.map fun p => (fn p.1, stamp p.2),
+                edges := G0.edgesIter.map (ren fn) }).edges.all (fun e => hasClass e.attrs)) = true := by
+          simp only [Bool.and_eq_true, List.all_eq_true, Store.merge]
+          constructor
+          · intro n hn
+            rcases List.mem_append.mp hn with h | h
+            · exact hcn n (List.mem_filter.mp h).1
+            · rw [hcopies] at h
+              obtain ⟨m, hm, rfl⟩ := List.mem_map.mp h
+              simp only [cp]
+              have hhc : hasClass (stamp m.attrs) = hasClass m.attrs := by
+                unfold hasClass; rw [hP1 _ _ (by decide)]
+              rw [hhc]
+              exact hcn m (List.mem_filter.mp hm).1
+          · intro e he
+            rcases List.mem_append.mp he with h | h
+            · exact hce e (List.mem_filter.mp h).1
+            · obtain ⟨_, _, e1, he1, hat1, _⟩ := mem_iterFrom _ _ _ e h
+              obtain ⟨e2, he2, rfl⟩ := List.mem_map.mp he1
+              obtain ⟨_, _, e3, he3, hat3, _⟩ := mem_iterFrom G0.edges G0.keys [] e2 he2
+              have hG0e : ∃ e4 ∈ s.edges, e3.attrs = e4.attrs := by
+                unfold Store.extract at hG
+                simp only at hG
+                split at hG
+                · cases hG
+                · simp only [Option.some.injEq] at hG
+                  rw [← hG] at he3
+                  obtain ⟨_, _, e4, he4, hat4, _⟩ := mem_iterFrom _ _ _ e3 he3
+                  exact ⟨e4, (List.mem_filter.mp he4).1, hat4⟩
+              obtain ⟨e4, he4, hat4⟩ := hG0e
+              rw [hat1]
+              simp only [ren]
+              rw [hat3, hat4]
+              exact hce e4 he4
+        exact if_pos hallc
+      · cases hv
+
+
+theorem addGraphDirect_state {κ : Type} [DecidableEq κ] (s : Store) (g : Val) (G : Graph κ) :
+    s.addGraphDirect g G = (s.delGraph g).merge
+      { nodes := G.nodes.map fun p => (s.nextId + G.keys.idxOf p.1, id p.2),
+        edges := G.edgesIter.map (ren fun k => s.nextId + G.keys.idxOf k) } := by
+  simp only [Store.addGraphDirect, sharedFirst_eval, Store.relabelFrom, Graph.relabel, delGraph_nextId, id]
+  rfl
+
+/-- **`validates_after_import`, direct entry points** (what `Topology.load` and the constructors use): if
+    `validate_graph()` passes for the stored graph `g`, it passes again after `g` was serialized and imported back under
+    its own id (replacing the original) -/
+theorem validates_after_import_direct (names : List String) (jsonOk : String → Bool) (hnames : "GraphID" ∉ names)
+    (s : Store) (hs : StoreInv s) (g : Val) (G0 : Graph Nat) (hG : s.extract g = some G0)
+    (f : Fmt) (hk : f = .graphml → KeysNodup G0) (hr : f = .json → NoReserved G0)
+    (doc : Doc Nat) (hser : serialize s g f = .ok (some doc))
+    (hv : validate names jsonOk s g = .ok ()) :
+    validate names jsonOk (importDirect s doc).2 g = .ok () := by
+  have hread := readDoc_serialize s hs g G0 hG f hk hr doc hser
+  obtain ⟨hne, _, _, hgid, _⟩ := extract_spec s hs g G0 hG
+  have hgi := getGraphId_of_all doc G0 hread hne g hgid
+  have hst : (importDirect s doc).2 = s.addGraphDirect g G0 := by
+    unfold importDirect
+    rw [hgi]
+    simp only [hread]
+  rw [hst, addGraphDirect_state]
+  exact validate_after_copy names jsonOk hnames s hs g g G0 hG id (fun _ _ _ => rfl) hgid hv
+
+
+/-! ### `Topology.load` on the shared store, for every safe plan -/
+
+theorem validate_delGraph_other (names : List String) (jsonOk : String → Bool) (s : Store) (g h : Val) (hne : g ≠ h)
+    (hv : validate names jsonOk s g = .ok ()) : validate names jsonOk (s.delGraph h) g = .ok () := by
+  have hgn : (s.delGraph h).graphNodes g = s.graphNodes g := by
+    simp only [Store.delGraph, Store.graphNodes, List.filter_filter]
+    apply List.filter_congr
+    intro n _
+    by_cases hh : Store.inGraph g n = true
+    · have : Store.inGraph h n = false := by
+        simp only [Store.inGraph, beq_iff_eq] at hh
+        simp only [Store.inGraph, hh, beq_eq_false_iff_ne, ne_eq, Option.some.injEq]
+        exact hne
+      simp [hh, this]
+    · simp [hh]
+  unfold validate at hv ⊢
+  rw [hgn]
+  split at hv
+  · cases hv
+  · rename_i hne0
+    simp only [hne0, if_false]
+    have hcheck : ∀ n, checkNode names jsonOk (s.delGraph h) g n = checkNode names jsonOk s g n := by
+      intro n
+      unfold checkNode findNode
+      rw [hgn]
+    have hfor : forE (checkNode names jsonOk (s.delGraph h) g) (s.graphNodes g) = forE (checkNode names jsonOk s g) (s.graphNodes g) := by
+      congr 1
+      funext n
+      exact hcheck n
+    rw [hfor]
+    cases hf : forE (checkNode names jsonOk s g) (s.graphNodes g) with
+    | error e => simp [hf] at hv
+    | ok u =>
+      simp only [hf] at hv ⊢
+      split at hv
+      · rename_i hcls
+        simp only [Bool.and_eq_true, List.all_eq_true] at hcls
+        have : ((s.delGraph h).nodes.all (fun n => hasClass n.attrs) && (s.delGraph h).edges.all (fun e => hasClass e.attrs)) = true := by
+          simp only [Bool.and_eq_true, List.all_eq_true, Store.delGraph]
+          exact ⟨fun n hn => hcls.1 n (List.mem_filter.mp hn).1, fun e he => hcls.2 e (List.mem_filter.mp he).1⟩
+        exact if_pos this
+      · cases hv
+
+/-- **Loading a model's own serialization (shared store), under every safe load plan** — in particular the two plans read
+    from the repo (`repo_plans_safe`) — into the Topology object that holds the model, into another object holding the same
+    graph id, or into any other topology (`held` is arbitrary): the call succeeds, the topology holds `g`, and the
+    graph found under `g` is the serialized one (node `k` renamed to `start_id + position(k)`; every attribute with
+    its name, value, value type and position, every edge with its attributes); the store invariant is kept -/
+theorem load_own_serialization (s : Store) (hs : StoreInv s) (g held newId : Val) (G0 : Graph Nat)
+    (hG : s.extract g = some G0) (f : Fmt) (hk : f = .graphml → KeysNodup G0) (hr : f = .json → NoReserved G0)
+    (doc : Doc Nat) (hser : serialize s g f = .ok (some doc))
+    (sp : LoadSpec) (hsafe : SafePlan sp = true) (shape : Shape) (hshape : shape = .file ∨ shape = .string) :
+    ∃ s', load sharedOps sp s held shape doc newId = (.ok g, s', g) ∧
+      s'.extract g = some (directCopy G0 s.nextId) ∧ StoreInv s' := by
+  obtain ⟨h1, h2⟩ := roundtrip_import_direct s hs g G0 hG f hk hr doc hser
+  have hinv1 := storeInv_importDirect s hs doc (serialize_docWF s hs g G0 hG f hk hr doc hser)
+  have himp : importDirect s doc = (.ok g, (importDirect s doc).2) := by
+    rcases hi : importDirect s doc with ⟨r, s1⟩
+    rw [hi] at h1
+    simp only at h1
+    rw [h1]
+  obtain ⟨s', hl, hP⟩ := load_safe sharedOps sp hsafe shape s held newId doc g (importDirect s doc).2
+    (fun s' => StoreInv s' ∧ s'.extract g = some (directCopy G0 s.nextId))
+    (by rcases hshape with rfl | rfl <;> exact himp)
+    ⟨hinv1, h2⟩
+    (fun s' hp hne => ⟨storeInv_delGraph s' hp.1 held, by
+      show (s'.delGraph held).extract g = _
+      rw [extract_delGraph_other s' hp.1 g held (fun h => hne h.symm)]; exact hp.2⟩)
+  exact ⟨s', hl, hP.2, hP.1⟩
+
+/-- **`load(graph_string, new_graph_id)`** under a safe plan that routes it to `import_graph_from_string` -/
+theorem load_new_id (s : Store) (hs : StoreInv s) (g held newId : Val) (G0 : Graph Nat)
+    (hG : s.extract g = some G0) (hid : HasNodeIds G0) (f : Fmt) (hk : f = .graphml → KeysNodup G0) (hr : f = .json → NoReserved G0)
+    (doc : Doc Nat) (hser : serialize s g f = .ok (some doc))
+    (sp : LoadSpec) (hsafe : SafePlan sp = true) (hnew : sp.onStringNewId = some .string) :
+    ∃ s', load sharedOps sp s held .stringNewId doc newId = (.ok newId, s', newId) ∧
+      s'.extract newId = some (stampedCopy G0 s.nextId newId) ∧ StoreInv s' := by
+  obtain ⟨h1, h2⟩ := roundtrip_import_string s hs g newId G0 hG hid f hk hr doc hser
+  have hinv1 := storeInv_importString s hs doc (serialize_docWF s hs g G0 hG f hk hr doc hser) newId
+  have himp : importString s doc newId = (.ok newId, (importString s doc newId).2) := by
+    rcases hi : importString s doc newId with ⟨r, s1⟩
+    rw [hi] at h1
+    simp only at h1
+    rw [h1]
+  obtain ⟨s', hl, hP⟩ := load_safe sharedOps sp hsafe .stringNewId s held newId doc newId (importString s doc newId).2
+    (fun s' => StoreInv s' ∧ s'.extract newId = some (stampedCopy G0 s.nextId newId))
+    ⟨hnew, himp⟩ ⟨hinv1, h2⟩
+    (fun s' hp hne => ⟨storeInv_delGraph s' hp.1 held, by
+      show (s'.delGraph held).extract newId = _
+      rw [extract_delGraph_other s' hp.1 newId held (fun h => hne h.symm)]; exact hp.2⟩)
+  exact ⟨s', hl, hP.2, hP.1⟩
+
+/-- **`load` touches no third graph (shared store), under every safe plan**: whatever simple text is loaded into a
+    topology — the call succeeding or raising — every graph other than the one the topology held before and the one it
+    holds / was asked to create afterwards is extracted unchanged -/
+theorem load_frame (s : Store) (hs : StoreInv s) (held newId g'' : Val) (d : Doc Nat) (hd : DocWF d)
+    (sp : LoadSpec) (hsafe : SafePlan sp = true) (shape : Shape)
+    (hne : ∀ g, (load sharedOps sp s held shape d newId).1 = .ok g → g'' ≠ g)
+    (hnew : shape = .stringNewId → g'' ≠ newId) (hheld : g'' ≠ held) :
+    (load sharedOps sp s held shape d newId).2.1.extract g'' = s.extract g'' := by
+  -- the store the importer call leaves
+  have hframe1 : (∀ g, (importOf sharedOps shape s d newId).1 = .ok g → g'' ≠ g) →
+      (importOf sharedOps shape s d newId).2.extract g'' = s.extract g'' ∧ StoreInv (importOf sharedOps shape s d newId).2 := by
+    intro hr
+    cases shape with
+    | stringNewId => exact ⟨import_frame_string s hs d newId g'' (hnew rfl), storeInv_importString s hs d hd newId⟩
+    | file => exact ⟨import_frame_direct s hs d g'' hr, storeInv_importDirect s hs d hd⟩
+    | string => exact ⟨import_frame_direct s hs d g'' hr, storeInv_importDirect s hs d hd⟩
+  rcases load_cases sharedOps sp hsafe shape s held newId d with hl | ⟨e, he, hl⟩ | ⟨g, hg, hsucc⟩
+  · rw [hl]
+  · rw [hl]
+    exact (hframe1 (fun g h => by rw [he] at h; cases h)).1
+  · obtain ⟨s', hl, _⟩ := hsucc (fun _ => True) trivial (fun _ _ _ => trivial)
+    have hgne : g'' ≠ g := hne g (by rw [hl])
+    obtain ⟨h1, h2⟩ := hframe1 (fun g0 h => by rw [hg] at h; cases h; exact hgne)
+    obtain ⟨s'', hl', hP⟩ := hsucc (fun s' => StoreInv s' ∧ s'.extract g'' = s.extract g'') ⟨h2, h1⟩
+      (fun s' hp _ => ⟨storeInv_delGraph s' hp.1 held, by
+        show (Store.delGraph s' held).extract g'' = _
+        rw [extract_delGraph_other s' hp.1 g'' held hheld]; exact hp.2⟩)
+    rw [hl']
+    exact hP.2
+
+/-- validation still passes after `Topology.load` of a model's own serialization (any safe plan, file or string) -/
+theorem load_validates (jsonOk : String → Bool) (s : Store) (hs : StoreInv s) (g held newId : Val) (G0 : Graph Nat)
+    (hG : s.extract g = some G0) (f : Fmt) (hk : f = .graphml → KeysNodup G0) (hr : f = .json → NoReserved G0)
+    (doc : Doc Nat) (hser : serialize s g f = .ok (some doc))
+    (sp : LoadSpec) (hsafe : SafePlan sp = true) (shape : Shape) (hshape : shape = .file ∨ shape = .string)
+    (hv : validate FimVerif.Gen.Serial.jsonPropertyNames jsonOk s g = .ok ()) :
+    validate FimVerif.Gen.Serial.jsonPropertyNames jsonOk (load sharedOps sp s held shape doc newId).2.1 g = .ok () := by
+  obtain ⟨h1, _⟩ := roundtrip_import_direct s hs g G0 hG f hk hr doc hser
+  have hv1 := validates_after_import_direct _ jsonOk graphId_not_json_property s hs g G0 hG f hk hr doc hser hv
+  have himp : importDirect s doc = (.ok g, (importDirect s doc).2) := by
+    rcases hi : importDirect s doc with ⟨r, s1⟩
+    rw [hi] at h1
+    simp only at h1
+    rw [h1]
+  obtain ⟨s', hl, hP⟩ := load_safe sharedOps sp hsafe shape s held newId doc g (importDirect s doc).2
+    (fun s' => validate FimVerif.Gen.Serial.jsonPropertyNames jsonOk s' g = .ok ())
+    (by rcases hshape with rfl | rfl <;> exact himp) hv1
+    (fun s' hp hne => validate_delGraph_other _ jsonOk s' g held (fun h => hne h.symm) hp)
+  rw [hl]
+  exact hP
+
+/-! ### `Topology.load` on the disjoint store, for every safe plan -/
+
+theorem lookup_append_ne {β : Type} : ∀ (l : List (Val × β)) (k k' : Val) (v : β), k' ≠ k →
+    (l ++ [(k, v)]).lookup k' = l.lookup k'
+  | [], k, k', v, h => by
+    have hb : (k' == k) = false := by simpa using h
+    simp [List.lookup, hb]
+  | (k0, v0) :: t, k, k', v, h => by
+    simp only [List.cons_append, List.lookup_cons]
+    cases hk : (k' == k0) with
+    | true => rfl
+    | false => exact lookup_append_ne t k k' v h
+
+theorem dDelGraph_lookup_ne (s : DStore) (h g : Val) (hne : g ≠ h) : (dDelGraph s h).graphs.lookup g = s.graphs.lookup g := by
+  unfold dDelGraph
+  split
+  · exact DStore.lookup_put_ne _ _ _ _ hne
+  · exact lookup_append_ne _ _ _ _ hne
+
+theorem dextract_congr (s1 s2 : DStore) (g : Val) (h : s1.graphs.lookup g = s2.graphs.lookup g) :
+    (s1.extract g).1 = (s2.extract g).1 := by
+  unfold DStore.extract
+  rw [h]
+  cases s2.graphs.lookup g <;> rfl
+
+/-- **Loading a model's own serialization (disjoint store), under every safe load plan**, into the same Topology object
+    or any other (`held` is arbitrary): the topology ends up holding `g` and the graph found there is the serialized one -/
+theorem dload_own_serialization (s : DStore) (g held newId : Val) (G : Graph Nat) (hl : s.graphs.lookup g = some G)
+    (hok : DGraphOk g G) (hne : G.nodes ≠ [])
+    (f : Fmt) (hk : f = .graphml → KeysNodup (DStore.copyGraph G)) (hr : f = .json → NoReserved (DStore.copyGraph G))
+    (doc : Doc Nat) (hser : (dSerialize s g f).1 = .ok doc)
+    (sp : LoadSpec) (hsafe : SafePlan sp = true) (shape : Shape) (hshape : shape = .file ∨ shape = .string) :
+    ∃ s', load disjointOps sp s held shape doc newId = (.ok g, s', g) ∧
+      (s'.extract g).1 = directCopy (DStore.copyGraph G) 1 := by
+  obtain ⟨h1, h2⟩ := droundtrip_import_direct s g G hl hok hne f hk hr doc hser
+  have himp : dImportDirect s doc = (.ok g, (dImportDirect s doc).2) := by
+    rcases hi : dImportDirect s doc with ⟨r, s1⟩
+    rw [hi] at h1
+    simp only at h1
+    rw [h1]
+  obtain ⟨s', hl', hP⟩ := load_safe disjointOps sp hsafe shape s held newId doc g (dImportDirect s doc).2
+    (fun s' => s'.graphs.lookup g = (dImportDirect s doc).2.graphs.lookup g)
+    (by rcases hshape with rfl | rfl <;> exact himp) rfl
+    (fun s' hp hne' => by
+      show (dDelGraph s' held).graphs.lookup g = _
+      rw [dDelGraph_lookup_ne s' held g (fun h => hne' h.symm)]; exact hp)
+  exact ⟨s', hl', by rw [dextract_congr s' _ g hP]; exact h2⟩
+
+theorem dload_new_id (s : DStore) (g held newId : Val) (G : Graph Nat) (hl : s.graphs.lookup g = some G)
+    (hw : GraphWF G) (hid : HasNodeIds G) (hne : G.nodes ≠ [])
+    (hfree : ∀ old, s.graphs.lookup newId = some old → old.nodes.isEmpty = true)
+    (f : Fmt) (hk : f = .graphml → KeysNodup (DStore.copyGraph G)) (hr : f = .json → NoReserved (DStore.copyGraph G))
+    (doc : Doc Nat) (hser : (dSerialize s g f).1 = .ok doc)
+    (sp : LoadSpec) (hsafe : SafePlan sp = true) (hnew : sp.onStringNewId = some .string) :
+    ∃ s', load disjointOps sp s held .stringNewId doc newId = (.ok newId, s', newId) ∧
+      (s'.extract newId).1 = stampedCopy (DStore.copyGraph G) 1 newId := by
+  obtain ⟨h1, h2⟩ := droundtrip_import_string s g newId G hl hw hid hne hfree f hk hr doc hser
+  have himp : dImportString s doc newId = (.ok newId, (dImportString s doc newId).2) := by
+    rcases hi : dImportString s doc newId with ⟨r, s1⟩
+    rw [hi] at h1
+    simp only at h1
+    rw [h1]
+  obtain ⟨s', hl', hP⟩ := load_safe disjointOps sp hsafe .stringNewId s held newId doc newId (dImportString s doc newId).2
+    (fun s' => s'.graphs.lookup newId = (dImportString s doc newId).2.graphs.lookup newId)
+    ⟨hnew, himp⟩ rfl
+    (fun s' hp hne' => by
+      show (dDelGraph s' held).graphs.lookup newId = _
+      rw [dDelGraph_lookup_ne s' held newId (fun h => hne' h.symm)]; exact hp)
+  exact ⟨s', hl', by rw [dextract_congr s' _ newId hP]; exact h2⟩
+
+/-- **`load` touches no third graph (disjoint store), under every safe plan**, whatever text is loaded -/
+theorem dload_frame {κ : Type} [DecidableEq κ] (s : DStore) (held newId g'' : Val) (d : Doc κ)
+    (sp : LoadSpec) (hsafe : SafePlan sp = true) (shape : Shape)
+    (hne : ∀ g, (load disjointOps sp s held shape d newId).1 = .ok g → g'' ≠ g)
+    (hnew : shape = .stringNewId → g'' ≠ newId) (hheld : g'' ≠ held) :
+    (load disjointOps sp s held shape d newId).2.1.graphs.lookup g'' = s.graphs.lookup g'' := by
+  have hframe1 : (∀ g, (importOf disjointOps shape s d newId).1 = .ok g → g'' ≠ g) →
+      (importOf disjointOps shape s d newId).2.graphs.lookup g'' = s.graphs.lookup g'' := by
+    intro hr
+    cases shape with
+    | stringNewId => exact dimport_frame_string s d newId g'' (hnew rfl)
+    | file => exact dimport_frame_direct s d g'' hr
+    | string => exact dimport_frame_direct s d g'' hr
+  rcases load_cases disjointOps sp hsafe shape s held newId d with hl | ⟨e, he, hl⟩ | ⟨g, hg, hsucc⟩
+  · rw [hl]
+  · rw [hl]
+    exact hframe1 (fun g h => by rw [he] at h; cases h)
+  · obtain ⟨s', hl, _⟩ := hsucc (fun _ => True) trivial (fun _ _ _ => trivial)
+    have hgne : g'' ≠ g := hne g (by rw [hl])
+    have h1 := hframe1 (fun g0 h => by rw [hg] at h; cases h; exact hgne)
+    obtain ⟨s'', hl', hP⟩ := hsucc (fun s' => s'.graphs.lookup g'' = s.graphs.lookup g'') h1
+      (fun s' hp _ => by
+        show (dDelGraph s' held).graphs.lookup g'' = _
+        rw [dDelGraph_lookup_ne s' held g'' hheld]; exact hp)
+    rw [hl']
+    exact hP
+
+/-! ### whole sessions on the shared store -/
+
+theorem storeInv_load (s : Store) (hs : StoreInv s) (d : Doc Nat) (hd : DocWF d)
+    (sp : LoadSpec) (hsafe : SafePlan sp = true) (held newId : Val) (shape : Shape) :
+    StoreInv (load sharedOps sp s held shape d newId).2.1 := by
+  have h1 : StoreInv (importOf sharedOps shape s d newId).2 := by
+    cases shape with
+    | stringNewId => exact storeInv_importString s hs d hd newId
+    | file => exact storeInv_importDirect s hs d hd
+    | string => exact storeInv_importDirect s hs d hd
+  rcases load_cases sharedOps sp hsafe shape s held newId d with hl | ⟨e, _, hl⟩ | ⟨g, _, hsucc⟩
+  · rw [hl]; exact hs
+  · rw [hl]; exact h1
+  · obtain ⟨s', hl, hP⟩ := hsucc StoreInv h1 (fun s' hp _ => storeInv_delGraph s' hp held)
+    rw [hl]; exact hP
+
+/-- the calls of a session on the shared store that C01 speaks about; `edit` stands for any other library call
+    (add / update / delete of nodes and links) -/
+inductive SessOp
+  | importString (d : Doc Nat) (g : Val)
+  | importDirect (d : Doc Nat)
+  | load (sp : LoadSpec) (held : Val) (shape : Shape) (d : Doc Nat) (newId : Val)
+  | delete (g : Val)
+  | clone (g newId : Val)
+  | edit (f : Store → Store)
+
+/-- side conditions: imported texts are simple, `load` runs a safe plan, an edit keeps the store invariant -/
+def SessOp.Ok : SessOp → Prop
+  | .importString d _ => DocWF d
+  | .importDirect d => DocWF d
+  | .load sp _ _ d _ => SafePlan sp = true ∧ DocWF d
+  | .delete _ => True
+  | .clone _ _ => True
+  | .edit f => ∀ s, StoreInv s → StoreInv (f s)
+
+def SessOp.apply (s : Store) : SessOp → Store
+  | .importString d g => (GraphML.importString s d g).2
+  | .importDirect d => (GraphML.importDirect s d).2
+  | .load sp held shape d newId => (Serial.load sharedOps sp s held shape d newId).2.1
+  | .delete g => s.delGraph g
+  | .clone g newId => (cloneGraph s g newId).2
+  | .edit f => f s
+
+theorem storeInv_step (s : Store) (hs : StoreInv s) (op : SessOp) (hop : op.Ok) : StoreInv (op.apply s) := by
+  cases op with
+  | importString d g => exact storeInv_importString s hs d hop g
+  | importDirect d => exact storeInv_importDirect s hs d hop
+  | load sp held shape d newId => exact storeInv_load s hs d hop.2 sp hop.1 held newId shape
+  | delete g => exact storeInv_delGraph s hs g
+  | clone g newId => exact storeInv_clone s hs g newId
+  | edit f => exact hop s hs
+
+/-- **the store invariant holds after every session** -/
+theorem session_invariant : ∀ (ops : List SessOp) (s : Store), StoreInv s → (∀ op ∈ ops, op.Ok) →
+    StoreInv (ops.foldl SessOp.apply s)
+  | [], _, hs, _ => hs
+  | op :: rest, s, hs, hok =>
+    session_invariant rest (op.apply s) (storeInv_step s hs op (hok op List.mem_cons_self))
+      (fun o ho => hok o (List.mem_cons_of_mem _ ho))
+
+/-- **round trip at any point of any session**: starting from the empty store, after any sequence of imports, loads
+    (under safe plans), clones, deletions and invariant-preserving edits, a held model serialized and loaded back — into
+    the topology that holds it or any other (`held` arbitrary) — is found again under its id, equal to the serialized one
+    up to the internal numbering, and the invariant still holds (so the statement applies again to the next save / load) -/
+theorem roundtrip_after_session (ops : List SessOp) (hok : ∀ op ∈ ops, op.Ok) (g held newId : Val) (G0 : Graph Nat)
+    (hG : (ops.foldl SessOp.apply Store.empty).extract g = some G0)
+    (f : Fmt) (hk : f = .graphml → KeysNodup G0) (hr : f = .json → NoReserved G0)
+    (doc : Doc Nat) (hser : serialize (ops.foldl SessOp.apply Store.empty) g f = .ok (some doc))
+    (sp : LoadSpec) (hsafe : SafePlan sp = true) (shape : Shape) (hshape : shape = .file ∨ shape = .string) :
+    ∃ s', load sharedOps sp (ops.foldl SessOp.apply Store.empty) held shape doc newId = (.ok g, s', g) ∧
+      s'.extract g = some (directCopy G0 (ops.foldl SessOp.apply Store.empty).nextId) ∧ StoreInv s' :=
+  load_own_serialization _ (session_invariant ops Store.empty storeInv_empty hok) g held newId G0 hG f hk hr doc hser sp hsafe
+    shape hshape
+
+/-! ### the disjoint store's invariant over whole sessions -/
+
+/-- every stored graph is well formed and all its nodes carry the id it is stored under -/
+def DStoreInv (s : DStore) : Prop := ∀ g G, s.graphs.lookup g = some G → DGraphOk g G
+
+theorem dStoreInv_empty : DStoreInv DStore.empty := by
+  intro g G h; cases h
+
+theorem dStoreInv_put (s : DStore) (hs : DStoreInv s) (g : Val) (T : Graph Nat) (hT : DGraphOk g T) (c : List (Val × Nat)) :
+    DStoreInv ⟨DStore.put s.graphs g T, c⟩ := by
+  intro g0 G0 h
+  by_cases hg : g0 = g
+  · subst hg
+    rw [DStore.lookup_put] at h
+    exact (Option.some.inj h) ▸ hT
+  · rw [DStore.lookup_put_ne _ _ _ _ hg] at h
+    exact hs g0 G0 h
+
+theorem dGraphOk_empty (g : Val) : DGraphOk g ⟨[], []⟩ :=
+  ⟨⟨List.nodup_nil, fun e he => by cases he⟩, fun p hp => by cases hp⟩
+
+theorem lookup_append_some {β : Type} : ∀ (l : List (Val × β)) (k k' : Val) (v x : β),
+    (l ++ [(k, v)]).lookup k' = some x → l.lookup k' = some x ∨ (k' = k ∧ x = v)
+  | [], k, k', v, x, h => by
+    simp only [List.nil_append, List.lookup_cons] at h
+    cases hk : (k' == k) with
+    | true =>
+      rw [hk] at h
+      exact Or.inr ⟨by simpa using hk, (Option.some.inj h).symm⟩
+    | false => rw [hk] at h; simp [List.lookup] at h
+  | (k0, v0) :: t, k, k', v, x, h => by
+    simp only [List.cons_append, List.lookup_cons] at h ⊢
+    cases hk : (k' == k0) with
+    | true => rw [hk] at h; exact Or.inl h
+    | false => rw [hk] at h; exact lookup_append_some t k k' v x h
+
+theorem dStoreInv_delGraph (s : DStore) (hs : DStoreInv s) (g : Val) : DStoreInv (dDelGraph s g) := by
+  unfold dDelGraph
+  split
+  · exact dStoreInv_put s hs g _ (dGraphOk_empty g) _
+  · intro g0 G0 h
+    rcases lookup_append_some _ _ _ _ _ h with h | ⟨rfl, rfl⟩
+    · exact hs g0 G0 h
+    · exact dGraphOk_empty g0
+
+theorem dStoreInv_addGraphDirect {κ : Type} [DecidableEq κ] (s : DStore) (hs : DStoreInv s) (g : Val) (G : Graph κ)
+    (hw : GraphWF G) (hg : ∀ p ∈ G.nodes, p.2.get? "GraphID" = some g) : DStoreInv (s.addGraphDirect g G) := by
+  obtain ⟨h1, _, h3⟩ := relabelFrom_ok G hw 1 id
+  unfold DStore.addGraphDirect
+  simp only [disjointFirst_eval]
+  apply dStoreInv_put s hs g
+  refine ⟨⟨by simpa using h1, by simpa using h3⟩, ?_⟩
+  intro p hp
+  simp only [Store.relabelFrom, Graph.relabel, List.mem_map] at hp
+  obtain ⟨q, hq, rfl⟩ := hp
+  exact hg q hq
+
+theorem dStoreInv_addGraph {κ : Type} [DecidableEq κ] (s : DStore) (hs : DStoreInv s) (g : Val) (G : Graph κ) (hw : GraphWF G) :
+    DStoreInv (s.addGraph g G).2 := by
+  have hgo : DStoreInv (DStore.addGraph.go s g G).2 := by
+    obtain ⟨h1, _, h3⟩ := relabelFrom_ok G hw 1 (fun a => a.set "GraphID" g)
+    unfold DStore.addGraph.go
+    simp only [disjointFirst_eval]
+    by_cases hall : ((Store.relabelFrom G 1).nodes.all fun p => (Option.map Val.truthy (p.snd.get? "NodeID")).getD false) = true
+    · simp only [hall, if_true]
+      apply dStoreInv_put s hs g
+      have hwT : GraphWF ({ nodes := (Store.relabelFrom G 1).nodes.map fun p => (p.1, p.2.set "GraphID" g),
+                            edges := (Store.relabelFrom G 1).edges } : Graph Nat) := ⟨h1, h3⟩
+      refine ⟨⟨h1, fun e he => edgesIter_ends _ hwT e he⟩, ?_⟩
+      intro p hp
+      simp only [List.mem_map] at hp
+      obtain ⟨q, _, rfl⟩ := hp
+      exact Attrs.get_set q.2 "GraphID" g
+    · simp only [hall]
+      exact hs
+  unfold DStore.addGraph
+  split
+  · split
+    · exact hs
+    · exact hgo
+  · exact hgo
+
+theorem dStoreInv_importString {κ : Type} [DecidableEq κ] (s : DStore) (hs : DStoreInv s) (d : Doc κ) (hd : DocWF d) (g : Val) :
+    DStoreInv (dImportString s d g).2 := by
+  unfold dImportString
+  cases hr : readDoc d with
+  | none => exact hs
+  | some G =>
+    simp only
+    split
+    · exact hs
+    · have := dStoreInv_addGraph s hs g G (hd G hr)
+      cases hag : s.addGraph g G with
+      | mk r s' =>
+        rw [hag] at this
+        cases r <;> exact this
+
+theorem dStoreInv_importDirect {κ : Type} [DecidableEq κ] (s : DStore) (hs : DStoreInv s) (d : Doc κ) (hd : DocWF d) :
+    DStoreInv (dImportDirect s d).2 := by
+  unfold dImportDirect
+  cases hg : getGraphId d with
+  | error e => exact hs
+  | ok g =>
+    obtain ⟨G, hr, hall⟩ := getGraphId_ok d g hg
+    simp only [hr]
+    exact dStoreInv_addGraphDirect s hs g G (hd G hr) hall
+
+theorem dStoreInv_load (s : DStore) (hs : DStoreInv s) (d : Doc Nat) (hd : DocWF d)
+    (sp : LoadSpec) (hsafe : SafePlan sp = true) (held newId : Val) (shape : Shape) :
+    DStoreInv (load disjointOps sp s held shape d newId).2.1 := by
+  have h1 : DStoreInv (importOf disjointOps shape s d newId).2 := by
+    cases shape with
+    | stringNewId => exact dStoreInv_importString s hs d hd newId
+    | file => exact dStoreInv_importDirect s hs d hd
+    | string => exact dStoreInv_importDirect s hs d hd
+  rcases load_cases disjointOps sp hsafe shape s held newId d with hl | ⟨e, _, hl⟩ | ⟨g, _, hsucc⟩
+  · rw [hl]; exact hs
+  · rw [hl]; exact h1
+  · obtain ⟨s', hl, hP⟩ := hsucc DStoreInv h1 (fun s' hp _ => dStoreInv_delGraph s' hp held)
+    rw [hl]; exact hP
+
+/-- every text the library serializes from the disjoint store is simple -/
+theorem dserialize_docWF (s : DStore) (g : Val) (G : Graph Nat) (hl : s.graphs.lookup g = some G) (hw : GraphWF G)
+    (f : Fmt) (hk : f = .graphml → KeysNodup (DStore.copyGraph G)) (hr : f = .json → NoReserved (DStore.copyGraph G))
+    (doc : Doc Nat) (hser : (dSerialize s g f).1 = .ok doc) : DocWF doc := by
+  intro G' hread
+  rw [(dreadDoc_serialize s g G hl hw f hk hr doc hser).2] at hread
+  exact (Option.some.inj hread) ▸ copyGraph_wf G hw
+
+/-- the calls of a session on the disjoint store -/
+inductive DSessOp
+  | importString (d : Doc Nat) (g : Val)
+  | importDirect (d : Doc Nat)
+  | load (sp : LoadSpec) (held : Val) (shape : Shape) (d : Doc Nat) (newId : Val)
+  | delete (g : Val)
+  | edit (f : DStore → DStore)
+
+def DSessOp.Ok : DSessOp → Prop
+  | .importString d _ => DocWF d
+  | .importDirect d => DocWF d
+  | .load sp _ _ d _ => SafePlan sp = true ∧ DocWF d
+  | .delete _ => True
+  | .edit f => ∀ s, DStoreInv s → DStoreInv (f s)
+
+def DSessOp.apply (s : DStore) : DSessOp → DStore
+  | .importString d g => (GraphML.dImportString s d g).2
+  | .importDirect d => (GraphML.dImportDirect s d).2
+  | .load sp held shape d newId => (Serial.load disjointOps sp s held shape d newId).2.1
+  | .delete g => dDelGraph s g
+  | .edit f => f s
+
+theorem dsession_invariant : ∀ (ops : List DSessOp) (s : DStore), DStoreInv s → (∀ op ∈ ops, op.Ok) →
+    DStoreInv (ops.foldl DSessOp.apply s)
+  | [], _, hs, _ => hs
+  | op :: rest, s, hs, hok => by
+    apply dsession_invariant rest (op.apply s) _ (fun o ho => hok o (List.mem_cons_of_mem _ ho))
+    have hop := hok op List.mem_cons_self
+    cases op with
+    | importString d g => exact dStoreInv_importString s hs d hop g
+    | importDirect d => exact dStoreInv_importDirect s hs d hop
+    | load sp held shape d newId => exact dStoreInv_load s hs d hop.2 sp hop.1 held newId shape
+    | delete g => exact dStoreInv_delGraph s hs g
+    | edit f => exact hop s hs
+
+/-- **round trip at any point of any session on the disjoint store**: after any sequence of imports, loads (safe plans),
+    deletions and invariant-preserving edits from the empty store, a held non-empty model serialized and loaded back into
+    the topology that holds it or any other is found again under its id, equal to the serialized one -/
+theorem droundtrip_after_session (ops : List DSessOp) (hok : ∀ op ∈ ops, op.Ok) (g held newId : Val) (G : Graph Nat)
+    (hl : (ops.foldl DSessOp.apply DStore.empty).graphs.lookup g = some G) (hne : G.nodes ≠ [])
+    (f : Fmt) (hk : f = .graphml → KeysNodup (DStore.copyGraph G)) (hr : f = .json → NoReserved (DStore.copyGraph G))
+    (doc : Doc Nat) (hser : (dSerialize (ops.foldl DSessOp.apply DStore.empty) g f).1 = .ok doc)
+    (sp : LoadSpec) (hsafe : SafePlan sp = true) (shape : Shape) (hshape : shape = .file ∨ shape = .string) :
+    ∃ s', load disjointOps sp (ops.foldl DSessOp.apply DStore.empty) held shape doc newId = (.ok g, s', g) ∧
+      (s'.extract g).1 = directCopy (DStore.copyGraph G) 1 :=
+  dload_own_serialization _ g held newId G hl (dsession_invariant ops DStore.empty dStoreInv_empty hok g G hl) hne f hk hr doc hser
+    sp hsafe shape hshape
+
+
+/-! ### re-serialization on the disjoint store -/
+
+theorem serializeG_eq (X : Graph Nat) (f : Fmt) : serializeG X f = (serializeGraph X f).map some := by
+  unfold serializeG serializeGraph
+  cases f with
+  | json => rfl
+  | graphml =>
+    simp only
+    cases toGraphML X with
+    | error e => rfl
+    | ok d =>
+      simp only
+      cases toNeo4j d <;> rfl
+
+theorem dSerialize_fst (s : DStore) (g : Val) (f : Fmt) : (dSerialize s g f).1 = serializeGraph (s.extract g).1 f := by
+  unfold dSerialize
+  rcases s.extract g with ⟨G, s'⟩
+  rfl
+
+/-- **`reserialize_stable`, disjoint store (direct entry points / `Topology.load`)**: serializing the re-imported copy
+    gives the same document as serializing the original up to the internal node numbering only -/
+theorem dreserialize_stable_direct (s : DStore) (g : Val) (G : Graph Nat) (hl : s.graphs.lookup g = some G)
+    (hok : DGraphOk g G) (hne : G.nodes ≠ [])
+    (f : Fmt) (hk : f = .graphml → KeysNodup (DStore.copyGraph G)) (hr : f = .json → NoReserved (DStore.copyGraph G))
+    (doc : Doc Nat) (hser : (dSerialize s g f).1 = .ok doc) (f' : Fmt)
+    (doc' : Doc Nat) (hser' : (dSerialize s g f').1 = .ok doc') :
+    (dSerialize (dImportDirect s doc).2 g f').1 =
+      .ok (relabelDoc (fun k => 1 + (DStore.copyGraph G).keys.idxOf k) id (fun _ v => v) doc') := by
+  obtain ⟨_, h2⟩ := droundtrip_import_direct s g G hl hok hne f hk hr doc hser
+  have he : (s.extract g).1 = DStore.copyGraph G := by unfold DStore.extract; rw [hl]
+  rw [dSerialize_fst, he] at hser'
+  rw [dSerialize_fst, h2]
+  have hw := copyGraph_wf G hok.1
+  have hG' : serializeG (DStore.copyGraph G) f' = .ok (some doc') := by rw [serializeG_eq, hser']; rfl
+  have := serializeG_copy (DStore.copyGraph G) (directCopy (DStore.copyGraph G) 1) (fun k => 1 + (DStore.copyGraph G).keys.idxOf k)
+    id id (fun _ v => v) rfl
+    (by
+      have := iter_relabelled (DStore.copyGraph G) hw 1
+      simp only [directCopy, Graph.edgesIter, Graph.keys, List.map_map, Function.comp_def] at this ⊢
+      exact this)
+    (fun p _ => rfl) (fun p _ => attrsObj_id _ p.2) (fun tbl _ => ⟨fun p _ => rfl, fun _ => rfl⟩) f' doc' hG'
+  rw [serializeG_eq] at this
+  cases hx : serializeGraph (directCopy (DStore.copyGraph G) 1) f' with
+  | error e => rw [hx] at this; cases this
+  | ok d =>
+    rw [hx] at this
+    simp only [Except.map, Except.ok.injEq, Option.some.injEq] at this
+    rw [this]
+
+
+/-! ### `enumerate_graph_nodes` and `nx_write_graphml` -/
+
+/-- every node carries a non-empty string `NodeID` (what the library's own models satisfy) -/
+def StrNodeIds {κ : Type} (G : Graph κ) : Prop :=
+  ∀ p ∈ G.nodes, ∃ t, p.2.get? "NodeID" = some (.str t) ∧ t ≠ ""
+
+theorem forE_needsNodeId {κ : Type} (G : Graph κ) (h : StrNodeIds G) :
+    forE keepsNodeId G.nodes = .ok () := by
+  rw [forE_ok_iff]
+  intro p hp
+  obtain ⟨t, ht, hne⟩ := h p hp
+  have : (t == "") = false := by simpa using hne
+  simp [keepsNodeId, needsNodeId, ht, this]
+
+/-- **`enumerate_graph_nodes` / `enumerate_graph_nodes_to_string` / `GraphML.nx_write_graphml` reproduce the library's own
+    GraphML**: for a graph in iteration order (what `extract_graph` returns) whose nodes all carry a NodeID, re-writing
+    the emitted document through `read_graphml` + `generate_graphml` gives the bare document `d` again, and with the
+    label markup (`nx_write_graphml`) the very document `d'` that `serialize_graph` emitted -/
+theorem enumerate_fixpoint (H : Graph Nat) (hit : H.edgesIter = H.edges) (hk : KeysNodup H) (hid : StrNodeIds H)
+    (d d' : GDoc Nat) (h : toGraphML H = .ok d) (h' : toNeo4j d = .ok d') :
+    enumerateDoc d' true = .ok d' ∧ enumerateDoc d' false = .ok d := by
+  have hread := roundtrip_graphml_doc H hk d d' h h'
+  have he : iterFrom H.edgesIter [] H.keys = H.edges := by rw [hit]; exact hit
+  have hH : (⟨H.nodes, iterFrom H.edgesIter [] H.keys⟩ : Graph Nat) = H := by rw [he]
+  rw [hH] at hread
+  unfold enumerateDoc
+  simp only [hread, forE_needsNodeId H hid, h, if_true, h']
+  exact ⟨trivial, by simp⟩
+
+example : ∃ (H : Graph Nat) (d d' : GDoc Nat), H.edgesIter = H.edges ∧ KeysNodup H ∧ StrNodeIds H ∧ H.edges ≠ [] ∧
+    toGraphML H = .ok d ∧ toNeo4j d = .ok d' :=
+  ⟨⟨[(1, [("GraphID", .str "g"), ("Class", .str "NetworkNode"), ("NodeID", .str "a"), ("n", .int 5)]),
+      (2, [("GraphID", .str "g"), ("Class", .str "Component"), ("NodeID", .str "b")])],
+     [⟨1, 2, [("Class", .str "has")]⟩]⟩, _, _, by decide, by decide,
+   by
+     intro p hp
+     simp only [List.mem_cons, List.not_mem_nil, or_false] at hp
+     rcases hp with rfl | rfl
+     · exact ⟨"a", rfl, by decide⟩
+     · exact ⟨"b", rfl, by decide⟩,
+   by decide, rfl, rfl⟩
+
+
+/-! ### non-vacuity of the hypotheses above -/
+
+example : SafePlan FimVerif.Gen.Serial.topologyLoad = true ∧ FimVerif.Gen.Serial.topologyLoad.onStringNewId = some .string := ⟨by decide, rfl⟩
+
+/-- a disjoint store holding a two-node, one-edge graph under `g` (and an edited graph under `h`) -/
+def exDStore : DStore :=
+  ⟨[(.str "g", ⟨[(1, [("GraphID", .str "g"), ("Class", .str "NetworkNode"), ("NodeID", .str "a"), ("n", .int 5)]),
+                 (2, [("GraphID", .str "g"), ("Class", .str "Component"), ("NodeID", .str "b"), ("n", .str "5")])],
+                [⟨2, 1, [("Class", .str "has")]⟩]⟩),
+    (.str "h", ⟨[(1, [("GraphID", .str "h"), ("Class", .str "NetworkNode"), ("NodeID", .str "edited")])], []⟩)],
+   [(.str "g", 3), (.str "h", 2)]⟩
+
+example : ∃ (G : Graph Nat) (doc : Doc Nat), exDStore.graphs.lookup (.str "g") = some G ∧ DGraphOk (.str "g") G ∧ HasNodeIds G ∧
+    G.nodes ≠ [] ∧ G.edges ≠ [] ∧ KeysNodup (DStore.copyGraph G) ∧ NoReserved (DStore.copyGraph G) ∧
+    (dSerialize exDStore (.str "g") .graphml).1 = .ok doc ∧
+    (∀ old, exDStore.graphs.lookup (.str "fresh") = some old → old.nodes.isEmpty = true) :=
+  ⟨_, _, rfl, by decide, by decide, by decide, by decide, by decide, by decide, rfl, by intro old h; cases h⟩
+
+example : ∃ (old : Graph Nat) (d : Doc Nat) (G : Graph Nat), exDStore.graphs.lookup (.str "h") = some old ∧ old.nodes ≠ [] ∧
+    readDoc d = some G ∧ G.nodes ≠ [] :=
+  ⟨_, .json ⟨false, false, [[("NodeID", .v (.str "a")), ("id", .k 1)]], []⟩, _, rfl, by decide, rfl, by decide⟩
+
+/-- a simple text: the node-link document of a one-edge graph -/
+def exDoc : Doc Nat :=
+  .json ⟨false, false, [[("GraphID", .v (.str "g")), ("NodeID", .v (.str "a")), ("id", .k 7)],
+                        [("GraphID", .v (.str "g")), ("NodeID", .v (.str "b")), ("id", .k 9)]],
+         [[("Class", .v (.str "has")), ("source", .k 7), ("target", .k 9)]]⟩
+
+theorem exDoc_wf : DocWF exDoc := by
+  intro G h
+  have : readDoc exDoc = some ⟨[(7, [("GraphID", .str "g"), ("NodeID", .str "a")]), (9, [("GraphID", .str "g"), ("NodeID", .str "b")])],
+      [⟨7, 9, [("Class", .str "has")]⟩]⟩ := rfl
+  rw [this] at h
+  exact (Option.some.inj h) ▸ (by decide)
+
+example : ∃ ops : List SessOp, ops.length = 5 ∧ ∀ op ∈ ops, op.Ok :=
+  ⟨[.importDirect exDoc, .clone (.str "g") (.str "c"), .load FimVerif.Gen.Serial.topologyLoad (.str "c") .string exDoc (.str ""),
+    .delete (.str "c"), .edit id], rfl, by
+    intro op hop
+    simp only [List.mem_cons, List.not_mem_nil, or_false] at hop
+    rcases hop with rfl | rfl | rfl | rfl | rfl
+    · exact exDoc_wf
+    · trivial
+    · exact ⟨by decide, exDoc_wf⟩
+    · trivial
+    · exact fun _ h => h⟩
+
+example : ∃ ops : List DSessOp, ops.length = 4 ∧ ∀ op ∈ ops, op.Ok :=
+  ⟨[.importDirect exDoc, .load FimVerif.Gen.Serial.topologyLoad (.str "x") .file exDoc (.str ""), .delete (.str "g"), .edit id], rfl, by
+    intro op hop
+    simp only [List.mem_cons, List.not_mem_nil, or_false] at hop
+    rcases hop with rfl | rfl | rfl | rfl
+    · exact exDoc_wf
+    · exact ⟨by decide, exDoc_wf⟩
+    · trivial
+    · exact fun _ h => h⟩
 
 end FimVerif.C01
